@@ -1945,126 +1945,256 @@ impl<Entities> Batch<Entities> {
 
 }
 
-pub mod resource {
-    pub struct Null;
-}
+use core::any::TypeId;
+#[verifier::external_type_specification]
+#[verifier::external_body]
+pub struct ExTypeId(TypeId);
 
-// ---- abstract component set of an entity type / of an archetype key (R8: type-level selection)
-/// the component set of a table / entity type: the bytes of its archetype identifier
 pub type VxBits = Seq<u8>;
 pub uninterp spec fn vx_bits_of<E>() -> VxBits;
 pub uninterp spec fn vx_key_bits<R: Registry>(k: archetype::IdentifierRef<R>) -> VxBits;
-pub uninterp spec fn vx_no_duplicates<R: Registry>() -> bool;
-/// the key under which the table for `bits` is found -- or, if there is none, the key the new
-/// table will get (a fresh buffer address: an uninterpreted function of the table state)
-pub uninterp spec fn vx_selected_key<R: Registry>(m: IMap<archetype::IdentifierRef<R>, archetype::Archetype<R>>, bits: VxBits) -> archetype::IdentifierRef<R>;
+/// component bytes of the canonical entity type with this TypeId (type-level, R8)
+pub uninterp spec fn vx_type_bits(t: TypeId) -> VxBits;
+
+/// A3: the token of an owned buffer denotes the buffer's bytes
+#[verifier::external_body]
+pub proof fn vx_axiom_ref_bits<R: Registry>(id: &archetype::Identifier<R>)
+    ensures vx_key_bits(id.spec_ref()) == id.spec_bits() {}
+/// A9 (allocator): an owned identifier buffer that is not stored in the table lives at an address
+/// different from every stored table's buffer
+#[verifier::external_body]
+pub proof fn vx_axiom_fresh_buffer<R: Registry>(t: &VxRawTable<R>, id: &archetype::Identifier<R>)
+    ensures !t@.dom().contains(id.spec_ref()) {}
+
+/// A9 (allocator): a table that is not yet stored owns a buffer at an address different from
+/// every stored table's buffer
+#[verifier::external_body]
+pub proof fn vx_axiom_fresh_table<R: Registry>(t: &VxRawTable<R>, a: &archetype::Archetype<R>)
+    ensures !t@.dom().contains(a.key()) {}
 
 #[verifier::external_body]
-pub fn vx_canonical<E>(e: E) -> (c: E)
-    ensures archetype::vx_entity_row(c) == archetype::vx_entity_row(e) { unimplemented!() }
+pub fn vx_type_id<E>() -> (t: TypeId) ensures vx_type_bits(t) == vx_bits_of::<E>() { unimplemented!() }
 #[verifier::external_body]
-pub fn vx_canonical_batch<E>(e: E) -> (c: E)
-    ensures archetype::vx_batch_rows(c) == archetype::vx_batch_rows(e) { unimplemented!() }
-/// A4: returns iff the registry lists no component type twice (panics otherwise)
+pub fn vx_create_archetype_identifier<R: Registry, E>() -> (r: archetype::Identifier<R>)
+    ensures r.spec_bits() == vx_bits_of::<E>() { unimplemented!() }
 #[verifier::external_body]
-pub fn vx_assert_no_duplicates<R: Registry>()
-    ensures vx_no_duplicates::<R>() { unimplemented!() }
+pub fn vx_as_bytes_ref<R: Registry>(id: archetype::IdentifierRef<R>) -> (b: Ghost<Seq<u8>>)
+    ensures b@ == vx_key_bits(id) { unimplemented!() }
+#[verifier::external_body]
+pub fn vx_as_bytes<R: Registry>(id: &archetype::Identifier<R>) -> (b: Ghost<Seq<u8>>)
+    ensures b@ == id.spec_bits() { unimplemented!() }
 
-// ---- R7: identifier bytes (K-bits checks these accessors on the real code) --------------------
-pub open spec fn vx_bit(bytes: Seq<u8>, i: int) -> bool { (bytes[i / 8] >> ((i % 8) as u8)) & 1u8 == 1u8 }
+use crate::archetype::Archetype;
+impl FnvBuildHasher {
+    #[verifier::external_body]
+    pub fn default() -> (r: Self) { unimplemented!() }
+}
+pub uninterp spec fn vx_hash<R: Registry>(k: archetype::IdentifierRef<R>) -> u64;
 #[verifier::external_body]
-pub unsafe fn vx_ref_get_unchecked<R: Registry>(id: archetype::IdentifierRef<R>, index: usize) -> (b: bool)
-    requires index / 8 < vx_key_bits(id).len(),
-    ensures b == vx_bit(vx_key_bits(id), index as int) { unimplemented!() }
-#[verifier::external_body]
-pub fn vx_ref_as_vec<R: Registry>(id: archetype::IdentifierRef<R>) -> (v: Vec<u8>)
-    ensures v@ == vx_key_bits(id) { unimplemented!() }
-/// registry position of component `C` counted from the front (R8: `LEN - INDEX - 1`)
-pub uninterp spec fn vx_cidx<C>() -> usize;
-#[verifier::external_body]
-pub fn vx_component_index<C>() -> (r: usize) ensures r == vx_cidx::<C>() { unimplemented!() }
+pub fn vx_make_hash<R: Registry>(identifier: archetype::IdentifierRef<R>, hash_builder: &FnvBuildHasher) -> (h: u64)
+    ensures h == vx_hash(identifier) { unimplemented!() }
 
-// ---- R7: the archetype tables.  Assumed contracts (A3): a map from key to table. -----------
+// ---- hashbrown::raw::RawTable<Archetype<R>> keyed by the token of each table (A3) ----------
 #[verifier::external_body]
 #[verifier::accept_recursive_types(R)]
-pub struct Archetypes<R: Registry> { p: PhantomData<R> }
-
-pub open spec fn vx_fresh_table<R: Registry>(a: archetype::Archetype<R>, k: archetype::IdentifierRef<R>, bits: VxBits) -> bool {
-    a.wf() && a.length == 0 && a.key() == k && vx_key_bits(k) == bits
+pub struct VxRawTable<R: Registry> { p: PhantomData<R> }
+impl<R: Registry> VxRawTable<R> {
+    pub uninterp spec fn view(&self) -> IMap<archetype::IdentifierRef<R>, archetype::Archetype<R>>;
+    /// every stored table sits under its own key
+    pub open spec fn keyed(&self) -> bool {
+        forall|k: archetype::IdentifierRef<R>| self@.dom().contains(k) ==> (#[trigger] self@[k]).key() == k
+    }
+    #[verifier::external_body]
+    pub fn new() -> (r: Self) ensures r@ == IMap::<archetype::IdentifierRef<R>, archetype::Archetype<R>>::empty() { unimplemented!() }
+    #[verifier::external_body]
+    pub fn with_capacity(capacity: usize) -> (r: Self) ensures r@ == IMap::<archetype::IdentifierRef<R>, archetype::Archetype<R>>::empty() { unimplemented!() }
+    #[verifier::external_body]
+    pub fn vx_get(&self, hash: u64, key: archetype::IdentifierRef<R>) -> (r: Option<&archetype::Archetype<R>>)
+        requires hash == vx_hash(key),
+        ensures r == (if self@.dom().contains(key) { Some(&self@[key]) } else { None::<&archetype::Archetype<R>> }) { unimplemented!() }
+    #[verifier::external_body]
+    pub fn vx_get_mut(&mut self, hash: u64, key: archetype::IdentifierRef<R>) -> (r: Option<&mut archetype::Archetype<R>>)
+        requires hash == vx_hash(key),
+        ensures
+            r is Some == old(self)@.dom().contains(key),
+            r is Some ==> *r->0 == old(self)@[key] && final(self)@ == old(self)@.insert(key, *final(r->0)),
+            r is None ==> final(self)@ == old(self)@,
+    { unimplemented!() }
+    /// R14: a ghost enumeration of the stored keys (hashbrown iterates every element once, in an
+    /// unspecified order)
+    pub open spec fn enumerates(&self, keys: Seq<archetype::IdentifierRef<R>>) -> bool {
+        &&& forall|i: int, j: int| 0 <= i < j < keys.len() ==> keys[i] != keys[j]
+        &&& forall|k: archetype::IdentifierRef<R>| self@.dom().contains(k) == keys.contains(k)
+    }
+    /// number of stored tables
+    pub uninterp spec fn count(&self) -> nat;
+    #[verifier::external_body]
+    pub fn vx_keys(&self) -> (r: Ghost<Seq<archetype::IdentifierRef<R>>>)
+        ensures self.enumerates(r@), r@.len() <= usize::MAX, r@.len() == self.count() { unimplemented!() }
+    #[verifier::external_body]
+    pub fn len(&self) -> (n: usize) ensures n == self.count() { unimplemented!() }
+    #[verifier::external_body]
+    pub fn vx_len(&self, keys: Ghost<Seq<archetype::IdentifierRef<R>>>) -> (n: usize)
+        requires self.enumerates(keys@),
+        ensures n == keys@.len() { unimplemented!() }
+    #[verifier::external_body]
+    pub fn vx_nth(&self, i: usize, keys: Ghost<Seq<archetype::IdentifierRef<R>>>) -> (r: &archetype::Archetype<R>)
+        requires self.enumerates(keys@), i < keys@.len(),
+        ensures *r == self@[keys@[i as int]] { unimplemented!() }
+    #[verifier::external_body]
+    pub fn vx_nth_mut(&mut self, i: usize, keys: Ghost<Seq<archetype::IdentifierRef<R>>>) -> (r: &mut archetype::Archetype<R>)
+        requires old(self).enumerates(keys@), i < keys@.len(),
+        ensures *r == old(self)@[keys@[i as int]], final(self)@ == old(self)@.insert(keys@[i as int], *final(r)) { unimplemented!() }
+    /// `insert_entry`: hashbrown requires that no equal element is present
+    #[verifier::external_body]
+    pub fn vx_insert_entry(&mut self, hash: u64, value: archetype::Archetype<R>) -> (r: &mut archetype::Archetype<R>)
+        requires hash == vx_hash(value.key()), !old(self)@.dom().contains(value.key()),
+        ensures *r == value, final(self)@ == old(self)@.insert(value.key(), *final(r)) { unimplemented!() }
+    #[verifier::external_body]
+    pub fn vx_insert(&mut self, hash: u64, value: archetype::Archetype<R>)
+        requires hash == vx_hash(value.key()), !old(self)@.dom().contains(value.key()),
+        ensures final(self)@ == old(self)@.insert(value.key(), value) { unimplemented!() }
+    /// R14: the bucket the (unsafe) raw iterator yields at position `i` of the enumeration
+    #[verifier::external_body]
+    pub fn vx_nth_bucket(&self, i: usize, keys: Ghost<Seq<archetype::IdentifierRef<R>>>) -> (r: VxBucket<R>)
+        requires self.enumerates(keys@), i < keys@.len(),
+        ensures r.key() == keys@[i as int] { unimplemented!() }
+    /// `Bucket::as_mut`: the element a live bucket points at
+    #[verifier::external_body]
+    pub unsafe fn vx_bucket_mut(&mut self, b: &VxBucket<R>) -> (r: &mut archetype::Archetype<R>)
+        requires old(self)@.dom().contains(b.key()),
+        ensures *r == old(self)@[b.key()], final(self)@ == old(self)@.insert(b.key(), *final(r)) { unimplemented!() }
+    /// `RawTable::erase`: the bucket must be live (hashbrown's safety contract)
+    #[verifier::external_body]
+    pub unsafe fn erase(&mut self, b: VxBucket<R>)
+        requires old(self)@.dom().contains(b.key()),
+        ensures final(self)@ == old(self)@.remove(b.key()) { unimplemented!() }
+    #[verifier::external_body]
+    pub fn shrink_to(&mut self, n: usize)
+        ensures final(self)@ == old(self)@ { unimplemented!() }
+}
+/// hashbrown `Bucket<Archetype<R>>`: identified by the key of the element it points at
+#[verifier::external_body]
+#[verifier::accept_recursive_types(R)]
+pub struct VxBucket<R: Registry> { p: PhantomData<R> }
+impl<R: Registry> VxBucket<R> {
+    pub uninterp spec fn key(&self) -> archetype::IdentifierRef<R>;
 }
 
-impl<R: Registry> Archetypes<R> {
-    pub uninterp spec fn view(&self) -> IMap<archetype::IdentifierRef<R>, archetype::Archetype<R>>;
-
+// ---- hashbrown::HashMap<&'static [u8], IdentifierRef<R>> (bytes -> token) -----------------
+#[verifier::external_body]
+#[verifier::accept_recursive_types(R)]
+pub struct VxBytesMap<R: Registry> { p: PhantomData<R> }
+impl<R: Registry> VxBytesMap<R> {
+    pub uninterp spec fn view(&self) -> IMap<Seq<u8>, archetype::IdentifierRef<R>>;
     #[verifier::external_body]
-    pub fn new() -> (r: Self)
-        ensures r@ == IMap::<archetype::IdentifierRef<R>, archetype::Archetype<R>>::empty() { unimplemented!() }
-
+    pub fn default() -> (r: Self) ensures r@ == IMap::<Seq<u8>, archetype::IdentifierRef<R>>::empty() { unimplemented!() }
     #[verifier::external_body]
-    pub unsafe fn vx_get_unchecked_mut(&mut self, identifier: archetype::IdentifierRef<R>) -> (r: &mut archetype::Archetype<R>)
-        requires old(self)@.dom().contains(identifier),
-        ensures *r == old(self)@[identifier],
-                final(self)@ == old(self)@.insert(identifier, *final(r)) { unimplemented!() }
-
-    /// lookup by component set: the existing table with these bits if there is one (single table
-    /// per component set, C13), else a fresh empty table under a key not used before
+    pub fn vx_with_capacity(capacity: usize) -> (r: Self) ensures r@ == IMap::<Seq<u8>, archetype::IdentifierRef<R>>::empty() { unimplemented!() }
     #[verifier::external_body]
-    pub unsafe fn vx_get_mut_or_insert_new_for_entity(&mut self, bits: Ghost<VxBits>) -> (r: &mut archetype::Archetype<R>)
-        ensures
-            r.key() == vx_selected_key(old(self)@, bits@),
-            (exists|k: archetype::IdentifierRef<R>| old(self)@.dom().contains(k) && vx_key_bits(k) == bits@)
-                ==> old(self)@.dom().contains(r.key()) && *r == old(self)@[r.key()] && vx_key_bits(r.key()) == bits@,
-            !(exists|k: archetype::IdentifierRef<R>| old(self)@.dom().contains(k) && vx_key_bits(k) == bits@)
-                ==> !old(self)@.dom().contains(r.key()) && vx_fresh_table(*r, r.key(), bits@),
-            final(self)@ == old(self)@.insert(r.key(), *final(r)),
-    { unimplemented!() }
-
-    /// same lookup, by an owned identifier buffer (Entry::add / Entry::remove)
+    pub fn vx_get(&self, bytes: Ghost<Seq<u8>>) -> (r: Option<&archetype::IdentifierRef<R>>)
+        ensures r == (if self@.dom().contains(bytes@) { Some(&self@[bytes@]) } else { None::<&archetype::IdentifierRef<R>> }) { unimplemented!() }
+    /// `insert_unique_unchecked`: the caller promises the key is not present
     #[verifier::external_body]
-    pub fn vx_get_mut_or_insert_new(&mut self, identifier_buffer: archetype::Identifier<R>) -> (r: &mut archetype::Archetype<R>)
-        ensures
-            r.key() == vx_selected_key(old(self)@, identifier_buffer.spec_bits()),
-            (exists|k: archetype::IdentifierRef<R>| old(self)@.dom().contains(k) && vx_key_bits(k) == identifier_buffer.spec_bits())
-                ==> old(self)@.dom().contains(r.key()) && *r == old(self)@[r.key()] && vx_key_bits(r.key()) == identifier_buffer.spec_bits(),
-            !(exists|k: archetype::IdentifierRef<R>| old(self)@.dom().contains(k) && vx_key_bits(k) == identifier_buffer.spec_bits())
-                ==> !old(self)@.dom().contains(r.key()) && vx_fresh_table(*r, r.key(), identifier_buffer.spec_bits()),
-            final(self)@ == old(self)@.insert(r.key(), *final(r)),
-    { unimplemented!() }
-
-    /// clears every table, releasing every stored identifier
+    pub unsafe fn vx_insert_unique_unchecked(&mut self, bytes: Ghost<Seq<u8>>, value: archetype::IdentifierRef<R>)
+        requires !old(self)@.dom().contains(bytes@),
+        ensures final(self)@ == old(self)@.insert(bytes@, value) { unimplemented!() }
+    /// R5h: `self.iter().filter_map(|(&k, v)| if set.contains(v) { Some(k) } else { None }).collect::<Vec<_>>()`
     #[verifier::external_body]
-    pub unsafe fn clear(&mut self, entity_allocator: &mut Allocator<R>)
-        requires vx_tables_ok(old(self)@, old(entity_allocator)), old(entity_allocator).wf(),
-        ensures
-            final(self)@.dom() == old(self)@.dom(),
-            forall|k: archetype::IdentifierRef<R>| final(self)@.dom().contains(k) ==>
-                (#[trigger] final(self)@[k]).wf() && final(self)@[k].length == 0 && final(self)@[k].key() == k,
-            final(entity_allocator).wf(),
-            forall|i: entity::Identifier| final(entity_allocator).resolves(i) ==
-                (old(entity_allocator).resolves(i) && !vx_stored(old(self)@, i)),
-            final(entity_allocator).slots@.len() == old(entity_allocator).slots@.len(),
-    { unimplemented!() }
-
-    /// drops empty tables and their lookup entries; keeps every non-empty table unchanged
+    pub fn vx_keys_with_value_in(&self, set: &VxTokenSet<R>) -> (r: Vec<VxSliceKey>)
+        ensures forall|b: Seq<u8>| (exists|j: int| 0 <= j < r@.len() && (#[trigger] r@[j])@ == b) == (self@.dom().contains(b) && set@.contains(self@[b])) { unimplemented!() }
     #[verifier::external_body]
-    pub fn shrink_to_fit(&mut self)
-        ensures
-            forall|k: archetype::IdentifierRef<R>| #![trigger final(self)@.dom().contains(k)] #![trigger old(self)@[k]]
-                final(self)@.dom().contains(k) == (old(self)@.dom().contains(k) && old(self)@[k].length > 0),
-            forall|k: archetype::IdentifierRef<R>| final(self)@.dom().contains(k) ==> {
-                &&& (#[trigger] final(self)@[k]).length == old(self)@[k].length
-                &&& final(self)@[k].ids() == old(self)@[k].ids()
-                &&& final(self)@[k].rows() == old(self)@[k].rows()
-                &&& final(self)@[k].key() == k
-                &&& final(self)@[k].wf()
-            },
-    { unimplemented!() }
+    pub fn remove(&mut self, k: VxSliceKey)
+        ensures final(self)@ == old(self)@.remove(k@) { unimplemented!() }
+}
+/// a `&'static [u8]` key of the bytes map
+#[verifier::external_body]
+pub struct VxSliceKey { _p: () }
+impl VxSliceKey {
+    pub uninterp spec fn view(&self) -> Seq<u8>;
+}
+// ---- hashbrown::HashMap<TypeId, IdentifierRef<R>> -----------------------------------------
+#[verifier::external_body]
+#[verifier::accept_recursive_types(R)]
+pub struct VxTypeMap<R: Registry> { p: PhantomData<R> }
+impl<R: Registry> VxTypeMap<R> {
+    pub uninterp spec fn view(&self) -> IMap<TypeId, archetype::IdentifierRef<R>>;
+    #[verifier::external_body]
+    pub fn default() -> (r: Self) ensures r@ == IMap::<TypeId, archetype::IdentifierRef<R>>::empty() { unimplemented!() }
+    #[verifier::external_body]
+    pub fn vx_with_capacity(capacity: usize) -> (r: Self) ensures r@ == IMap::<TypeId, archetype::IdentifierRef<R>>::empty() { unimplemented!() }
+    #[verifier::external_body]
+    pub fn get(&self, t: &TypeId) -> (r: Option<&archetype::IdentifierRef<R>>)
+        ensures r == (if self@.dom().contains(*t) { Some(&self@[*t]) } else { None::<&archetype::IdentifierRef<R>> }) { unimplemented!() }
+    #[verifier::external_body]
+    pub fn insert(&mut self, t: TypeId, value: archetype::IdentifierRef<R>)
+        ensures final(self)@ == old(self)@.insert(t, value) { unimplemented!() }
+    /// R14: ghost enumeration of the entries
+    pub open spec fn enumerates(&self, ts: Seq<TypeId>) -> bool {
+        forall|t: TypeId| self@.dom().contains(t) == ts.contains(t)
+    }
+    #[verifier::external_body]
+    pub fn vx_keys(&self) -> (r: Ghost<Seq<TypeId>>) ensures self.enumerates(r@), r@.len() <= usize::MAX { unimplemented!() }
+    #[verifier::external_body]
+    pub fn vx_len(&self, ts: Ghost<Seq<TypeId>>) -> (n: usize) requires self.enumerates(ts@), ensures n == ts@.len() { unimplemented!() }
+    #[verifier::external_body]
+    pub fn vx_nth_pair(&self, i: usize, ts: Ghost<Seq<TypeId>>) -> (r: (TypeId, &archetype::IdentifierRef<R>))
+        requires self.enumerates(ts@), i < ts@.len(),
+        ensures r.0 == ts@[i as int], *r.1 == self@[ts@[i as int]] { unimplemented!() }
+    /// R5h: `self.iter().filter_map(|(&k, v)| if set.contains(v) { Some(k) } else { None }).collect::<Vec<_>>()`
+    #[verifier::external_body]
+    pub fn vx_keys_with_value_in(&self, set: &VxTokenSet<R>) -> (r: Vec<TypeId>)
+        ensures forall|t: TypeId| #[trigger] r@.contains(t) == (self@.dom().contains(t) && set@.contains(self@[t])) { unimplemented!() }
+    #[verifier::external_body]
+    pub fn remove(&mut self, t: &TypeId)
+        ensures final(self)@ == old(self)@.remove(*t) { unimplemented!() }
+}
+
+// ---- hashbrown::HashMap<IdentifierRef, IdentifierRef> (the key map of clone / clone_from) ----
+#[verifier::external_body]
+#[verifier::accept_recursive_types(R)]
+pub struct VxKeyMap<R: Registry> { p: PhantomData<R> }
+impl<R: Registry> VxKeyMap<R> {
+    pub uninterp spec fn view(&self) -> IMap<archetype::IdentifierRef<R>, archetype::IdentifierRef<R>>;
+    #[verifier::external_body]
+    pub fn vx_with_capacity(n: usize) -> (r: Self)
+        ensures r@ == IMap::<archetype::IdentifierRef<R>, archetype::IdentifierRef<R>>::empty() { unimplemented!() }
+    #[verifier::external_body]
+    pub fn insert(&mut self, k: archetype::IdentifierRef<R>, v: archetype::IdentifierRef<R>)
+        ensures final(self)@ == old(self)@.insert(k, v) { unimplemented!() }
+    #[verifier::external_body]
+    pub fn get(&self, k: &archetype::IdentifierRef<R>) -> (r: Option<&archetype::IdentifierRef<R>>)
+        ensures r == (if self@.dom().contains(*k) { Some(&self@[*k]) } else { None::<&archetype::IdentifierRef<R>> }) { unimplemented!() }
+    /// `map.values().collect::<HashSet<_>>()`
+    #[verifier::external_body]
+    pub fn vx_values(&self) -> (r: VxTokenSet<R>)
+        ensures forall|t: archetype::IdentifierRef<R>| #[trigger] r@.contains(t) == (exists|k: archetype::IdentifierRef<R>| self@.dom().contains(k) && self@[k] == t) { unimplemented!() }
+}
+#[verifier::external_body]
+#[verifier::accept_recursive_types(R)]
+pub struct VxTokenSet<R: Registry> { p: PhantomData<R> }
+impl<R: Registry> VxTokenSet<R> {
+    pub uninterp spec fn view(&self) -> ISet<archetype::IdentifierRef<R>>;
+    #[verifier::external_body]
+    pub fn contains(&self, t: &archetype::IdentifierRef<R>) -> (b: bool) ensures b == self@.contains(*t) { unimplemented!() }
+    #[verifier::external_body]
+    pub fn vx_new() -> (r: Self) ensures r@ == ISet::<archetype::IdentifierRef<R>>::empty() { unimplemented!() }
+    #[verifier::external_body]
+    pub fn insert(&mut self, t: archetype::IdentifierRef<R>) -> (b: bool) ensures final(self)@ == old(self)@.insert(t) { unimplemented!() }
 }
 
 /// `c` is a value copy of table `t` under key `k2` (C10): same identifiers, same rows, same
 /// component set
 pub open spec fn vx_table_copy<R: Registry>(c: archetype::Archetype<R>, t: archetype::Archetype<R>, k2: archetype::IdentifierRef<R>) -> bool {
     c.wf() && c.key() == k2 && c.length == t.length && c.ids() == t.ids() && c.rows() == t.rows() && vx_key_bits(k2) == vx_key_bits(t.key())
+}
+/// source table under key `k` has its value copy in `dst` under `map[k]`
+pub open spec fn vx_copied<R: Registry>(
+    map: IMap<archetype::IdentifierRef<R>, archetype::IdentifierRef<R>>,
+    dst: IMap<archetype::IdentifierRef<R>, archetype::Archetype<R>>,
+    src: IMap<archetype::IdentifierRef<R>, archetype::Archetype<R>>,
+    k: archetype::IdentifierRef<R>) -> bool {
+    map.dom().contains(k) && dst.dom().contains(map[k]) && vx_table_copy(dst[map[k]], src[k], map[k])
 }
 /// the old-key -> new-key map returned by Archetypes::clone / clone_from
 pub open spec fn vx_is_key_map<R: Registry>(
@@ -2080,1163 +2210,854 @@ pub open spec fn vx_is_key_map<R: Registry>(
             ((exists|k: archetype::IdentifierRef<R>| src.dom().contains(k) && map[k] == k2) || dst[k2].length == 0)
 }
 
-impl<R: Registry> Archetypes<R> {
-    /// A3 (assumed): clones every table under a fresh key and returns the key map
-    #[verifier::external_body]
-    pub unsafe fn clone(&self) -> (r: (Self, HashMap<archetype::IdentifierRef<R>, archetype::IdentifierRef<R>, FnvBuildHasher>))
-        requires vx_single_table(self@),
-        ensures vx_is_key_map(r.1@, self@, r.0@), vx_single_table(r.0@),
-    { unimplemented!() }
-    /// A3 (assumed): makes `self` hold a copy of every table of `source` (reusing the table with
-    /// the same component set where there is one) and clears every other table
-    #[verifier::external_body]
-    pub unsafe fn clone_from(&mut self, source: &Self) -> (r: HashMap<archetype::IdentifierRef<R>, archetype::IdentifierRef<R>, FnvBuildHasher>)
-        requires vx_single_table(old(self)@), vx_single_table(source@),
-        ensures vx_is_key_map(r@, source@, final(self)@), vx_single_table(final(self)@),
-    { unimplemented!() }
+// ---- Archetype::clone / clone_from: assumed contracts, checked (bounded) by family K-clone ----
+#[verifier::external_body]
+pub fn vx_archetype_clone<R: Registry>(a: &archetype::Archetype<R>) -> (r: archetype::Archetype<R>)
+    requires a.wf(),
+    ensures r.wf(), r.length == a.length, r.ids() == a.ids(), r.rows() == a.rows(), vx_key_bits(r.key()) == vx_key_bits(a.key()) { unimplemented!() }
+#[verifier::external_body]
+pub fn vx_archetype_clone_from<R: Registry>(a: &mut archetype::Archetype<R>, source: &archetype::Archetype<R>)
+    requires old(a).wf(), source.wf(),
+    ensures final(a).wf(), final(a).key() == old(a).key(), final(a).length == source.length, final(a).ids() == source.ids(), final(a).rows() == source.rows() { unimplemented!() }
+
+/// `Archetype::component_eq` (R6, assumed contract; K-eq decides it on the real code): the
+/// identifier columns and every component cell of the two tables are equal
+pub uninterp spec fn vx_tables_eq<R: Registry>(a: archetype::Archetype<R>, b: archetype::Archetype<R>) -> bool;
+#[verifier::external_body]
+pub unsafe fn vx_component_eq<R: Registry>(a: &archetype::Archetype<R>, b: &archetype::Archetype<R>) -> (r: bool)
+    requires vx_key_bits(a.key()) == vx_key_bits(b.key()),
+    ensures r == vx_tables_eq(*a, *b) { unimplemented!() }
+/// C16: table `t` has a table of the same component set in `m` that is component-equal to it
+pub open spec fn vx_has_equal_partner<R: Registry>(t: archetype::Archetype<R>, m: IMap<archetype::IdentifierRef<R>, archetype::Archetype<R>>) -> bool {
+    exists|k2: archetype::IdentifierRef<R>| m.dom().contains(k2) && vx_key_bits(k2) == vx_key_bits(t.key()) && vx_tables_eq(t, #[trigger] m[k2])
 }
 
-/// A8 (assumed): the user's `Clone` for the resource list is a faithful copy
-#[verifier::external_body]
-pub fn vx_clone<T>(x: &T) -> (r: T) ensures r == *x { unimplemented!() }
-#[verifier::external_body]
-pub fn vx_clone_from<T>(dst: &mut T, src: &T) ensures *final(dst) == *src { unimplemented!() }
-#[verifier::external_body]
-pub fn vx_default<T>() -> (r: T) { unimplemented!() }
-
-/// W2: every identifier the allocator accepts is attached to the stored row it points at
-pub open spec fn vx_ids_stored<R: Registry>(m: IMap<archetype::IdentifierRef<R>, archetype::Archetype<R>>, a: &Allocator<R>) -> bool {
-    forall|i: entity::Identifier| a.resolves(i) ==> {
-        let l = #[trigger] a.view()[i];
-        m.dom().contains(l.identifier) && l.index < m[l.identifier].length && m[l.identifier].ids()[l.index as int] == i
-    }
+/// every stored table is well formed
+pub open spec fn vx_tables_wf<R: Registry>(m: IMap<archetype::IdentifierRef<R>, archetype::Archetype<R>>) -> bool {
+    forall|k: archetype::IdentifierRef<R>| m.dom().contains(k) ==> (#[trigger] m[k]).wf()
 }
-/// W5: entities with the same component set are kept in a single table
+pub open spec fn vx_fresh_table<R: Registry>(a: archetype::Archetype<R>, k: archetype::IdentifierRef<R>, bits: VxBits) -> bool {
+    a.wf() && a.length == 0 && a.key() == k && vx_key_bits(k) == bits
+}
 pub open spec fn vx_single_table<R: Registry>(m: IMap<archetype::IdentifierRef<R>, archetype::Archetype<R>>) -> bool {
     forall|k1: archetype::IdentifierRef<R>, k2: archetype::IdentifierRef<R>|
         m.dom().contains(k1) && m.dom().contains(k2) && vx_key_bits(k1) == vx_key_bits(k2) ==> k1 == k2
 }
 
-pub struct World<Registry, Resources = resource::Null>
+pub struct Archetypes<R>
 where
-    Registry: crate::Registry, {
-    pub archetypes: Archetypes<Registry>,
-    pub entity_allocator: Allocator<Registry>,
-    pub len: usize,
+    R: Registry, {
+    pub raw_archetypes: VxRawTable<R>,
+    pub hash_builder: FnvBuildHasher,
 
-    pub resources: Resources,
+    pub type_id_lookup: VxTypeMap<R>,
+    pub foreign_identifier_lookup: VxBytesMap<R>,
 }
 
 
-impl<Registry: crate::Registry, Resources> World<Registry, Resources> {
+impl<R: Registry> Archetypes<R> {
+    pub open spec fn view(&self) -> IMap<archetype::IdentifierRef<R>, archetype::Archetype<R>> { self.raw_archetypes@ }
+    /// I1: every table sits under its own key
+    pub open spec fn inv_keyed(&self) -> bool { self.raw_archetypes.keyed() }
+    /// I2: the bytes lookup lists exactly the tables with keys in `d`, each under its own bytes
+    pub open spec fn inv_foreign_complete(&self, d: ISet<archetype::IdentifierRef<R>>) -> bool {
+        forall|k: archetype::IdentifierRef<R>| #[trigger] d.contains(k) ==>
+            self.foreign_identifier_lookup@.dom().contains(vx_key_bits(k)) && self.foreign_identifier_lookup@[vx_key_bits(k)] == k
+    }
+    pub open spec fn inv_foreign_sound(&self, d: ISet<archetype::IdentifierRef<R>>) -> bool {
+        forall|b: Seq<u8>| #[trigger] self.foreign_identifier_lookup@.dom().contains(b) ==>
+            d.contains(self.foreign_identifier_lookup@[b]) && vx_key_bits(self.foreign_identifier_lookup@[b]) == b
+    }
+    /// I3: the type cache points at stored tables of the right component set
+    pub open spec fn inv_type_cache(&self, d: ISet<archetype::IdentifierRef<R>>) -> bool {
+        forall|t: TypeId| #[trigger] self.type_id_lookup@.dom().contains(t) ==>
+            d.contains(self.type_id_lookup@[t]) && vx_key_bits(self.type_id_lookup@[t]) == vx_type_bits(t)
+    }
+    /// the lookup tables are in step with a table set whose keys are `d` (depends on keys only)
+    pub open spec fn lookups_ok(&self, d: ISet<archetype::IdentifierRef<R>>) -> bool {
+        self.inv_foreign_complete(d) && self.inv_foreign_sound(d) && self.inv_type_cache(d)
+    }
     pub open spec fn wf(&self) -> bool {
-        &&& self.entity_allocator.wf()
-        &&& vx_tables_ok(self.archetypes@, &self.entity_allocator)
-        &&& vx_ids_stored(self.archetypes@, &self.entity_allocator)
-        &&& vx_single_table(self.archetypes@)
-        &&& self.len == self.entity_allocator.active_count()
-        &&& vx_no_duplicates::<Registry>()
+        self.inv_keyed() && self.lookups_ok(self@.dom())
     }
-    /// C01: the world as a map from live identifiers to (component set, component values)
-    pub open spec fn view(&self) -> IMap<entity::Identifier, (VxBits, archetype::VxRow)> {
-        IMap::new(
-            |i: entity::Identifier| self.entity_allocator.resolves(i),
-            |i: entity::Identifier| {
-                let l = self.entity_allocator.view()[i];
-                (vx_key_bits(l.identifier), self.archetypes@[l.identifier].rows()[l.index as int])
-            },
-        )
+    /// C13: entities with the same component set are kept in a single table
+    pub proof fn lemma_single_table(&self)
+        requires self.wf(),
+        ensures vx_single_table(self@),
+    {
+        assert forall|k1: archetype::IdentifierRef<R>, k2: archetype::IdentifierRef<R>|
+            self@.dom().contains(k1) && self@.dom().contains(k2) && vx_key_bits(k1) == vx_key_bits(k2) implies k1 == k2 by {
+            assert(self@.dom().contains(k1) && self@.dom().contains(k2));
+            assert(self.foreign_identifier_lookup@[vx_key_bits(k1)] == k1);
+            assert(self.foreign_identifier_lookup@[vx_key_bits(k2)] == k2);
+        }
     }
 }
 
-impl<Registry> World<Registry, resource::Null> where Registry: crate::Registry {
+
+/// identifier `i` is stored in one of the first `n` tables of the enumeration `keys`
+pub open spec fn vx_stored_prefix<R: Registry>(m: IMap<archetype::IdentifierRef<R>, archetype::Archetype<R>>, keys: Seq<archetype::IdentifierRef<R>>, n: int, i: entity::Identifier) -> bool {
+    exists|j: int| 0 <= j < n && (#[trigger] m[keys[j]]).ids().contains(i)
+}
+pub proof fn lemma_stored_prefix_step<R: Registry>(m: IMap<archetype::IdentifierRef<R>, archetype::Archetype<R>>, keys: Seq<archetype::IdentifierRef<R>>, n: int, i: entity::Identifier)
+    requires 0 <= n < keys.len(),
+    ensures vx_stored_prefix(m, keys, n + 1, i) == (vx_stored_prefix(m, keys, n, i) || m[keys[n]].ids().contains(i)),
+{
+    if vx_stored_prefix(m, keys, n + 1, i) {
+        let j = choose|j: int| 0 <= j < n + 1 && (#[trigger] m[keys[j]]).ids().contains(i);
+        if j < n { assert(0 <= j < n && m[keys[j]].ids().contains(i)); }
+    }
+    if vx_stored_prefix(m, keys, n, i) {
+        let j = choose|j: int| 0 <= j < n && (#[trigger] m[keys[j]]).ids().contains(i);
+        assert(0 <= j < n + 1 && m[keys[j]].ids().contains(i));
+    }
+    if m[keys[n]].ids().contains(i) {
+        assert(0 <= n < n + 1 && m[keys[n]].ids().contains(i));
+    }
+}
+/// over the whole enumeration, "stored in a prefix table" is "stored in the table set"
+pub proof fn lemma_stored_prefix_all<R: Registry>(m: IMap<archetype::IdentifierRef<R>, archetype::Archetype<R>>, keys: Seq<archetype::IdentifierRef<R>>, i: entity::Identifier)
+    requires
+        forall|k: archetype::IdentifierRef<R>| m.dom().contains(k) == keys.contains(k),
+        forall|k: archetype::IdentifierRef<R>| m.dom().contains(k) ==> (#[trigger] m[k]).wf(),
+    ensures vx_stored_prefix(m, keys, keys.len() as int, i) == vx_stored(m, i),
+{
+    if vx_stored_prefix(m, keys, keys.len() as int, i) {
+        let j = choose|j: int| 0 <= j < keys.len() && (#[trigger] m[keys[j]]).ids().contains(i);
+        let k = keys[j];
+        assert(keys.contains(k));
+        assert(m.dom().contains(k));
+        assert(m[k].wf());
+        let r = choose|r: int| 0 <= r < m[k].ids().len() && m[k].ids()[r] == i;
+        assert(m.dom().contains(k) && 0 <= r < m[k].length && m[k].ids()[r] == i);
+    }
+    if vx_stored(m, i) {
+        let (k, r) = choose|k: archetype::IdentifierRef<R>, r: int| m.dom().contains(k) && 0 <= r < m[k].length && #[trigger] m[k].ids()[r] == i;
+        assert(keys.contains(k));
+        let j = choose|j: int| 0 <= j < keys.len() && keys[j] == k;
+        assert(m[k].wf());
+        assert(m[keys[j]].ids()[r] == i);
+        assert(m[keys[j]].ids().contains(i));
+        assert(0 <= j < keys.len() && m[keys[j]].ids().contains(i));
+    }
+}
+
+impl<R> Archetypes<R> where R: Registry {
     pub fn new() -> (r: Self)
         ensures
             r.wf(),
-            r.len == 0,
+            r@ == IMap::<archetype::IdentifierRef<R>, archetype::Archetype<R>>::empty(),
     {
-
-        Self::with_resources(resource::Null)
-    
-    }
-
-}
-
-impl<Registry, Resources> World<Registry, Resources> where Registry: crate::Registry {
-     fn from_raw_parts(archetypes: Archetypes<Registry>, entity_allocator: Allocator<Registry>, len: usize, resources: Resources,) -> (r: Self)
-        ensures
-            vx_no_duplicates::<Registry>(),
-            r.archetypes == archetypes && r.entity_allocator == entity_allocator && r.len == len && r.resources == resources,
-    {
-
-        vx_assert_no_duplicates::<Registry>();
 
         Self {
-            archetypes,
-            entity_allocator,
-            len,
+            raw_archetypes: VxRawTable::new(),
+            hash_builder: FnvBuildHasher::default(),
 
-            resources,
+            type_id_lookup: VxTypeMap::default(),
+            foreign_identifier_lookup: VxBytesMap::default(),
         }
     
     }
 
-    pub fn with_resources(resources: Resources) -> (r: Self)
+    pub fn with_capacity(capacity: usize) -> (r: Self)
         ensures
             r.wf(),
-            r.len == 0,
-            r.resources == resources,
+            r@ == IMap::<archetype::IdentifierRef<R>, archetype::Archetype<R>>::empty(),
     {
 
-proof { lemma_count_zero(Seq::<Slot<Registry>>::empty()); }
+        Self {
+            raw_archetypes: VxRawTable::with_capacity(capacity),
+            hash_builder: FnvBuildHasher::default(),
 
-        Self::from_raw_parts(Archetypes::new(), Allocator::new(), 0, resources)
+            type_id_lookup: VxTypeMap::vx_with_capacity(capacity),
+            foreign_identifier_lookup: VxBytesMap::vx_with_capacity(capacity),
+        }
     
     }
 
-    pub fn insert<Entity, Indices>(&mut self, entity: Entity) -> (id: entity::Identifier)
-        requires
-            old(self).wf(),
-            old(self).len < usize::MAX,
-            forall|k: archetype::IdentifierRef<Registry>| old(self).archetypes@.dom().contains(k) ==> (#[trigger] old(self).archetypes@[k]).length < usize::MAX,
+    pub fn get(&self, identifier: archetype::IdentifierRef<R>) -> (r: Option<&Archetype<R>>)
         ensures
-            final(self).entity_allocator.wf(),
-            vx_tables_ok(final(self).archetypes@, &final(self).entity_allocator),
-            vx_ids_stored(final(self).archetypes@, &final(self).entity_allocator),
-            vx_single_table(final(self).archetypes@),
-            final(self).len == final(self).entity_allocator.active_count(),
-            final(self).resources == old(self).resources,
-            !old(self).view().dom().contains(id),
-            final(self).view() == old(self).view().insert(id, (vx_bits_of::<Entity>(), archetype::vx_entity_row(entity))),
-            final(self).len == old(self).len + 1,
+            r == (if self@.dom().contains(identifier) { Some(&self@[identifier]) } else { None::<&archetype::Archetype<R>> }),
     {
 
-let ghost vx_w0 = *self;
-
-        self.len += 1;
-
-        let canonical_entity = vx_canonical(entity);
-        let vx_r = unsafe {
-            self.archetypes
-                .vx_get_mut_or_insert_new_for_entity(Ghost(vx_bits_of::<Entity>()))
-                .push(canonical_entity, &mut self.entity_allocator)
-        };
-proof {
-            let id = vx_r;
-            let a0 = vx_w0.entity_allocator;
-            let a1 = self.entity_allocator;
-            let m0 = vx_w0.archetypes@;
-            let m1 = self.archetypes@;
-            let k = a1.view()[id].identifier;
-            let t1 = m1[k];
-            assert(a1.view().dom().contains(id));
-            assert(m1.dom().contains(k));
-            assert forall|i: entity::Identifier| a0.resolves(i) implies a1.resolves(i) && a1.view()[i] == a0.view()[i] && i != id by {
-                assert(a0.view().dom().contains(i));
-                assert(a1.view().dom().contains(i));
-            }
-            assert forall|i: entity::Identifier| a1.resolves(i) && i != id implies a0.resolves(i) by {
-                assert(a1.view().dom().contains(i));
-                assert(a0.view().dom().contains(i));
-            }
-            // W1
-            assert forall|k2: archetype::IdentifierRef<Registry>| m1.dom().contains(k2) implies
-                (#[trigger] m1[k2]).wf() && m1[k2].key() == k2 && m1[k2].agrees(&a1) by {
-                if k2 != k {
-                    assert(m0.dom().contains(k2) && m1[k2] == m0[k2]);
-                    assert(m0[k2].agrees(&a0));
-                    assert forall|r: int| 0 <= r < m1[k2].length implies a1.resolves(#[trigger] m1[k2].ids()[r])
-                        && a1.view()[m1[k2].ids()[r]] == (Location { identifier: m1[k2].key(), index: r as usize }) by {
-                        assert(a0.resolves(m0[k2].ids()[r]));
-                    }
-                }
-            }
-            // W2
-            assert forall|i: entity::Identifier| a1.resolves(i) implies ({
-                let l = #[trigger] a1.view()[i];
-                m1.dom().contains(l.identifier) && l.index < m1[l.identifier].length && m1[l.identifier].ids()[l.index as int] == i
-            }) by {
-                if i != id {
-                    assert(a0.resolves(i));
-                    let l = a0.view()[i];
-                    assert(m0.dom().contains(l.identifier));
-                    if l.identifier == k {
-                        assert(t1.ids()[l.index as int] == m0[k].ids()[l.index as int]);
-                    } else {
-                        assert(m1[l.identifier] == m0[l.identifier]);
-                    }
-                }
-            }
-            // the map view
-            assert(self.view() =~= vx_w0.view().insert(id, (vx_bits_of::<Entity>(), archetype::vx_entity_row(entity)))) by {
-                assert forall|i: entity::Identifier| self.view().dom().contains(i) == vx_w0.view().insert(id, (vx_bits_of::<Entity>(), archetype::vx_entity_row(entity))).dom().contains(i) by { }
-                assert forall|i: entity::Identifier| self.view().dom().contains(i) implies
-                    #[trigger] self.view()[i] == vx_w0.view().insert(id, (vx_bits_of::<Entity>(), archetype::vx_entity_row(entity)))[i] by {
-                    if i != id {
-                        assert(a0.resolves(i));
-                        let l = a0.view()[i];
-                        assert(m0.dom().contains(l.identifier));
-                        if l.identifier == k {
-                            assert(t1.rows()[l.index as int] == m0[k].rows()[l.index as int]);
-                        } else {
-                            assert(m1[l.identifier] == m0[l.identifier]);
-                        }
-                    }
-                }
-            }
-        }
-        vx_r
-
+        self.raw_archetypes.vx_get(
+            vx_make_hash(identifier, &self.hash_builder),
+            identifier,
+        )
+    
     }
 
-    pub fn extend<Entities, Indices>(&mut self, entities: entities::Batch<Entities>,) -> (ids: Vec<entity::Identifier>)
-        requires
-            old(self).wf(),
-            entities.wf(),
-            old(self).len + entities.len <= usize::MAX,
-            old(self).entity_allocator.slots@.len() + entities.len <= usize::MAX,
-            forall|k: archetype::IdentifierRef<Registry>| old(self).archetypes@.dom().contains(k) ==> (#[trigger] old(self).archetypes@[k]).length + entities.len <= usize::MAX,
+    pub fn get_mut(&mut self, identifier: archetype::IdentifierRef<R>,) -> (r: Option<&mut Archetype<R>>)
         ensures
-            final(self).entity_allocator.wf(),
-            vx_tables_ok(final(self).archetypes@, &final(self).entity_allocator),
-            vx_ids_stored(final(self).archetypes@, &final(self).entity_allocator),
-            vx_single_table(final(self).archetypes@),
-            final(self).len == final(self).entity_allocator.active_count(),
-            final(self).resources == old(self).resources,
-            ids@.len() == archetype::vx_batch_rows(entities.entities).len(),
-            forall|j: int| 0 <= j < ids@.len() ==> !old(self).view().dom().contains(#[trigger] ids@[j]),
-            forall|j: int| 0 <= j < ids@.len() ==> final(self).view().dom().contains(#[trigger] ids@[j]) && final(self).view()[ids@[j]] == (vx_bits_of::<Entities>(), archetype::vx_batch_rows(entities.entities)[j]),
-            forall|i: entity::Identifier| old(self).view().dom().contains(i) ==> final(self).view().dom().contains(i) && final(self).view()[i] == old(self).view()[i],
-            forall|i: entity::Identifier| final(self).view().dom().contains(i) == (old(self).view().dom().contains(i) || ids@.contains(i)),
-            final(self).len == old(self).len + ids@.len(),
+            r is Some == old(self)@.dom().contains(identifier),
+            r is Some ==> *r->0 == old(self)@[identifier] && final(self)@ == old(self)@.insert(identifier, *final(r->0)),
+            r is None ==> final(self)@ == old(self)@,
+            final(self).foreign_identifier_lookup == old(self).foreign_identifier_lookup && final(self).type_id_lookup == old(self).type_id_lookup,
     {
 
-let ghost vx_w0 = *self;
-
-        self.len += entities.len();
-
-        let canonical_entities =
-
-            unsafe { entities::Batch::new_unchecked(vx_canonical_batch(entities.entities)) };
-        let vx_r = unsafe {
-            self.archetypes
-                .vx_get_mut_or_insert_new_for_entity(Ghost(vx_bits_of::<Entities>()))
-                .extend(canonical_entities, &mut self.entity_allocator)
-        };
-proof {
-            let ids = vx_r@;
-            let bits = vx_bits_of::<Entities>();
-            let rows = archetype::vx_batch_rows(entities.entities);
-            let a0 = vx_w0.entity_allocator;
-            let a1 = self.entity_allocator;
-            let m0 = vx_w0.archetypes@;
-            let m1 = self.archetypes@;
-            let k = vx_selected_key(m0, bits);
-            let t1 = m1[k];
-            let n0 = if m0.dom().contains(k) { m0[k].length as int } else { 0 };
-            assert(rows.len() == entities.len);
-            assert(m1.dom().contains(k));
-            assert(t1.length == n0 + ids.len());
-            assert forall|j: int| 0 <= j < ids.len() implies t1.ids()[n0 + j] == ids[j] && t1.rows()[n0 + j] == rows[j] by { }
-            assert forall|r: int| 0 <= r < n0 implies t1.ids()[r] == m0[k].ids()[r] && t1.rows()[r] == m0[k].rows()[r] by { }
-            // W1
-            assert forall|k2: archetype::IdentifierRef<Registry>| m1.dom().contains(k2) implies
-                (#[trigger] m1[k2]).wf() && m1[k2].key() == k2 && m1[k2].agrees(&a1) by {
-                if k2 != k {
-                    assert(m0.dom().contains(k2) && m1[k2] == m0[k2]);
-                    assert(m0[k2].agrees(&a0));
-                    assert forall|r: int| 0 <= r < m1[k2].length implies a1.resolves(#[trigger] m1[k2].ids()[r])
-                        && a1.view()[m1[k2].ids()[r]] == (Location { identifier: m1[k2].key(), index: r as usize }) by {
-                        assert(a0.resolves(m0[k2].ids()[r]));
-                    }
-                }
-            }
-            // W2
-            assert forall|i: entity::Identifier| a1.resolves(i) implies ({
-                let l = #[trigger] a1.view()[i];
-                m1.dom().contains(l.identifier) && l.index < m1[l.identifier].length && m1[l.identifier].ids()[l.index as int] == i
-            }) by {
-                if ids.contains(i) {
-                    let j = choose|j: int| 0 <= j < ids.len() && ids[j] == i;
-                    assert(t1.ids()[n0 + j] == i);
-                    assert(a1.view()[t1.ids()[n0 + j]] == (Location { identifier: t1.key(), index: (n0 + j) as usize }));
-                } else {
-                    assert(a0.resolves(i));
-                    let l = a0.view()[i];
-                    assert(m0.dom().contains(l.identifier));
-                    if l.identifier == k {
-                        assert(t1.ids()[l.index as int] == m0[k].ids()[l.index as int]);
-                    } else {
-                        assert(m1[l.identifier] == m0[l.identifier]);
-                    }
-                }
-            }
-            // rows in batch order
-            assert forall|j: int| 0 <= j < ids.len() implies self.view().dom().contains(#[trigger] ids[j])
-                && self.view()[ids[j]] == (bits, rows[j]) by {
-                assert(t1.ids()[n0 + j] == ids[j]);
-                assert(a1.view()[t1.ids()[n0 + j]] == (Location { identifier: t1.key(), index: (n0 + j) as usize }));
-            }
-            assert forall|i: entity::Identifier| vx_w0.view().dom().contains(i) implies self.view().dom().contains(i) && self.view()[i] == vx_w0.view()[i] by {
-                assert(a0.resolves(i));
-                let l = a0.view()[i];
-                assert(m0.dom().contains(l.identifier));
-                if l.identifier == k {
-                    assert(t1.rows()[l.index as int] == m0[k].rows()[l.index as int]);
-                } else {
-                    assert(m1[l.identifier] == m0[l.identifier]);
-                }
-            }
-        }
-        vx_r
-
+        self.raw_archetypes.vx_get_mut(
+            vx_make_hash(identifier, &self.hash_builder),
+            identifier,
+        )
+    
     }
 
-    pub fn remove(&mut self, entity_identifier: entity::Identifier)
+    pub unsafe fn get_unchecked_mut(&mut self, identifier: archetype::IdentifierRef<R>,) -> (r: &mut Archetype<R>)
         requires
-            old(self).wf(),
+            old(self)@.dom().contains(identifier),
         ensures
-            final(self).entity_allocator.wf(),
-            vx_tables_ok(final(self).archetypes@, &final(self).entity_allocator),
-            vx_ids_stored(final(self).archetypes@, &final(self).entity_allocator),
-            vx_single_table(final(self).archetypes@),
-            final(self).len == final(self).entity_allocator.active_count(),
-            final(self).resources == old(self).resources,
-            final(self).view() == old(self).view().remove(entity_identifier),
-            !final(self).view().dom().contains(entity_identifier),
-            final(self).len + (if old(self).view().dom().contains(entity_identifier) { 1int } else { 0int }) == old(self).len,
-            final(self).entity_allocator.slots@.len() == old(self).entity_allocator.slots@.len() && forall|s: int| 0 <= s < old(self).entity_allocator.slots@.len() ==> (#[trigger] final(self).entity_allocator.slots@[s]).generation == old(self).entity_allocator.slots@[s].generation,
+            *r == old(self)@[identifier],
+            final(self)@ == old(self)@.insert(identifier, *final(r)),
+            final(self).foreign_identifier_lookup == old(self).foreign_identifier_lookup && final(self).type_id_lookup == old(self).type_id_lookup,
     {
-
-let ghost vx_w0 = *self; proof { lemma_count_bound(self.entity_allocator.slots@); if self.entity_allocator.resolves(entity_identifier) { lemma_count_positive(self.entity_allocator.slots@, entity_identifier.index as int); } }
-
-
-        if let Some(location) = self.entity_allocator.get(entity_identifier) {
-
-            unsafe {
-                self.archetypes.vx_get_unchecked_mut(location.identifier)
-                    .remove_row_unchecked(location.index, &mut self.entity_allocator);
-            }
-
-let ghost vx_mid = *self;
-            unsafe {
-                self.entity_allocator.free_unchecked(entity_identifier);
-proof {
-            let id = entity_identifier;
-            let a0 = vx_w0.entity_allocator;
-            let am = vx_mid.entity_allocator;
-            let a1 = self.entity_allocator;
-            let m0 = vx_w0.archetypes@;
-            let m1 = self.archetypes@;
-            let k = location.identifier;
-            let idx = location.index as int;
-            let t0 = m0[k];
-            let t1 = m1[k];
-            let last = t0.length - 1;
-            let moved = t0.ids()[last];
-            assert(m1 == vx_mid.archetypes@);
-            assert(t0.ids()[idx] == id);
-            t0.lemma_ids_distinct(&a0);
-            assert(a0.resolves(moved)) by { assert(t0.agrees(&a0)); }
-            // identifiers stored in other tables are neither `id` nor `moved`
-            assert forall|k2: archetype::IdentifierRef<Registry>, r: int| m0.dom().contains(k2) && k2 != k && 0 <= r < m0[k2].length
-                implies (#[trigger] m0[k2].ids()[r]) != id && m0[k2].ids()[r] != moved by {
-                assert(m0[k2].agrees(&a0));
-                assert(a0.view()[m0[k2].ids()[r]].identifier == k2);
-                assert(a0.view()[id].identifier == k);
-                assert(a0.view()[moved].identifier == k);
-            }
-            // W1
-            assert forall|k2: archetype::IdentifierRef<Registry>| m1.dom().contains(k2) implies
-                (#[trigger] m1[k2]).wf() && m1[k2].key() == k2 && m1[k2].agrees(&a1) by {
-                if k2 != k {
-                    assert(m0.dom().contains(k2) && m1[k2] == m0[k2]);
-                    assert(m0[k2].agrees(&a0));
-                    assert forall|r: int| 0 <= r < m1[k2].length implies a1.resolves(#[trigger] m1[k2].ids()[r])
-                        && a1.view()[m1[k2].ids()[r]] == (Location { identifier: m1[k2].key(), index: r as usize }) by {
-                        let i = m0[k2].ids()[r];
-                        assert(i != id && i != moved);
-                        assert(a0.resolves(i));
-                        assert(am.resolves(i));
-                    }
-                } else {
-                    assert(t1.agrees(&am));
-                    assert forall|r: int| 0 <= r < t1.length implies a1.resolves(#[trigger] t1.ids()[r])
-                        && a1.view()[t1.ids()[r]] == (Location { identifier: t1.key(), index: r as usize }) by {
-                        let i = t1.ids()[r];
-                        assert(am.resolves(i));
-                        assert(i != id) by {
-                            if r == idx { assert(i == t0.ids()[last]); } else { assert(i == t0.ids()[r]); }
-                        }
-                    }
-                }
-            }
-            // W2
-            assert forall|i: entity::Identifier| a1.resolves(i) implies ({
-                let l = #[trigger] a1.view()[i];
-                m1.dom().contains(l.identifier) && l.index < m1[l.identifier].length && m1[l.identifier].ids()[l.index as int] == i
-            }) by {
-                assert(am.resolves(i) && i != id);
-                assert(a0.resolves(i));
-                let l0 = a0.view()[i];
-                assert(m0.dom().contains(l0.identifier));
-                if idx < last && i == moved {
-                    assert(t1.ids()[idx] == moved);
-                } else {
-                    assert(am.view()[i] == l0);
-                    if l0.identifier == k {
-                        assert(t0.ids()[l0.index as int] == i);
-                        assert(l0.index as int != idx);
-                        if l0.index as int == last { assert(i == moved); }
-                        assert(t1.ids()[l0.index as int] == i);
-                    } else {
-                        assert(m1[l0.identifier] == m0[l0.identifier]);
-                    }
-                }
-            }
-            // the map view
-            assert(self.view() =~= vx_w0.view().remove(id)) by {
-                assert forall|i: entity::Identifier| self.view().dom().contains(i) == vx_w0.view().remove(id).dom().contains(i) by {
-                    assert(a1.resolves(i) == (am.resolves(i) && i != id));
-                    assert(am.resolves(i) == a0.resolves(i));
-                }
-                assert forall|i: entity::Identifier| self.view().dom().contains(i) implies
-                    #[trigger] self.view()[i] == vx_w0.view().remove(id)[i] by {
-                    assert(am.resolves(i) && i != id);
-                    assert(a0.resolves(i));
-                    let l0 = a0.view()[i];
-                    assert(m0.dom().contains(l0.identifier));
-                    if idx < last && i == moved {
-                        assert(t1.rows()[idx] == t0.rows()[last]);
-                        assert(l0 == (Location { identifier: k, index: last as usize }));
-                    } else {
-                        assert(am.view()[i] == l0);
-                        if l0.identifier == k {
-                            assert(t0.ids()[l0.index as int] == i);
-                            assert(l0.index as int != idx);
-                            if l0.index as int == last { assert(i == moved); }
-                            assert(t1.rows()[l0.index as int] == t0.rows()[l0.index as int]);
-                        } else {
-                            assert(m1[l0.identifier] == m0[l0.identifier]);
-                        }
-                    }
-                }
-            }
-        }
-
-            }
-
-            self.len -= 1;
-        }
-proof { if !vx_w0.entity_allocator.resolves(entity_identifier) { assert(self.view() =~= vx_w0.view().remove(entity_identifier)); } }
-
-    }
-
-    pub fn clear(&mut self)
-        requires
-            old(self).wf(),
-        ensures
-            final(self).entity_allocator.wf(),
-            vx_tables_ok(final(self).archetypes@, &final(self).entity_allocator),
-            vx_ids_stored(final(self).archetypes@, &final(self).entity_allocator),
-            vx_single_table(final(self).archetypes@),
-            final(self).len == final(self).entity_allocator.active_count(),
-            final(self).resources == old(self).resources,
-            final(self).view() == IMap::<entity::Identifier, (VxBits, archetype::VxRow)>::empty(),
-            final(self).len == 0,
-    {
-
-let ghost vx_w0 = *self;
 
 
         unsafe {
-            self.archetypes.clear(&mut self.entity_allocator);
+            self.raw_archetypes.vx_get_mut(
+                    vx_make_hash(identifier, &self.hash_builder),
+                    identifier,
+                )
+                .unwrap()
         }
-        self.len = 0;
-proof {
-            let a0 = vx_w0.entity_allocator;
-            let a1 = self.entity_allocator;
-            let m0 = vx_w0.archetypes@;
-            let m1 = self.archetypes@;
-            assert forall|i: entity::Identifier| !a1.resolves(i) by {
-                if a0.resolves(i) {
-                    let l = a0.view()[i];
-                    assert(m0.dom().contains(l.identifier) && 0 <= l.index < m0[l.identifier].length && m0[l.identifier].ids()[l.index as int] == i);
-                    assert(vx_stored(m0, i));
-                }
-            }
-            assert forall|s: int| 0 <= s < a1.slots@.len() implies (#[trigger] a1.slots@[s]).location is None by {
-                a1.lemma_slots_len_fits();
-                let i = entity::Identifier { index: s as usize, generation: a1.slots@[s].generation };
-                assert(!a1.resolves(i));
-            }
-            lemma_count_zero(a1.slots@);
-            assert(self.view() =~= IMap::<entity::Identifier, (VxBits, archetype::VxRow)>::empty());
-        }
-
-    }
-
-    pub fn shrink_to_fit(&mut self)
-        requires
-            old(self).wf(),
-        ensures
-            final(self).entity_allocator.wf(),
-            vx_tables_ok(final(self).archetypes@, &final(self).entity_allocator),
-            vx_ids_stored(final(self).archetypes@, &final(self).entity_allocator),
-            vx_single_table(final(self).archetypes@),
-            final(self).len == final(self).entity_allocator.active_count(),
-            final(self).resources == old(self).resources,
-            final(self).view() == old(self).view(),
-            final(self).len == old(self).len,
-            final(self).entity_allocator.slots@ == old(self).entity_allocator.slots@,
-    {
-
-let ghost vx_w0 = *self;
-
-        self.archetypes.shrink_to_fit();
-        self.entity_allocator.shrink_to_fit();
-proof {
-            let a0 = vx_w0.entity_allocator;
-            let a1 = self.entity_allocator;
-            let m0 = vx_w0.archetypes@;
-            let m1 = self.archetypes@;
-            assert forall|i: entity::Identifier| a1.resolves(i) == a0.resolves(i) by { }
-            assert forall|i: entity::Identifier| a0.resolves(i) implies a1.view()[i] == a0.view()[i] by { }
-            assert forall|k2: archetype::IdentifierRef<Registry>| m1.dom().contains(k2) implies
-                (#[trigger] m1[k2]).wf() && m1[k2].key() == k2 && m1[k2].agrees(&a1) by {
-                assert(m0.dom().contains(k2));
-                assert(m0[k2].agrees(&a0));
-                assert forall|r: int| 0 <= r < m1[k2].length implies a1.resolves(#[trigger] m1[k2].ids()[r])
-                    && a1.view()[m1[k2].ids()[r]] == (Location { identifier: m1[k2].key(), index: r as usize }) by {
-                    assert(a0.resolves(m0[k2].ids()[r]));
-                }
-            }
-            assert forall|i: entity::Identifier| a1.resolves(i) implies ({
-                let l = #[trigger] a1.view()[i];
-                m1.dom().contains(l.identifier) && l.index < m1[l.identifier].length && m1[l.identifier].ids()[l.index as int] == i
-            }) by {
-                let l = a0.view()[i];
-                assert(m0.dom().contains(l.identifier) && l.index < m0[l.identifier].length);
-                assert(m0[l.identifier].length > 0);
-            }
-            assert(self.view() =~= vx_w0.view()) by {
-                assert forall|i: entity::Identifier| self.view().dom().contains(i) implies #[trigger] self.view()[i] == vx_w0.view()[i] by {
-                    let l = a0.view()[i];
-                    assert(m0.dom().contains(l.identifier) && l.index < m0[l.identifier].length);
-                    assert(m1.dom().contains(l.identifier));
-                }
-            }
-        }
-
-    }
-
-    pub fn reserve<Entity, Indices>(&mut self, additional: usize)
-        requires
-            old(self).wf(),
-        ensures
-            final(self).entity_allocator.wf(),
-            vx_tables_ok(final(self).archetypes@, &final(self).entity_allocator),
-            vx_ids_stored(final(self).archetypes@, &final(self).entity_allocator),
-            vx_single_table(final(self).archetypes@),
-            final(self).len == final(self).entity_allocator.active_count(),
-            final(self).resources == old(self).resources,
-            final(self).view() == old(self).view(),
-            final(self).len == old(self).len,
-    {
-
-let ghost vx_w0 = *self;
-
-
-        unsafe {
-            self.archetypes
-                .vx_get_mut_or_insert_new_for_entity(Ghost(vx_bits_of::<Entity>()))
-                .reserve::<Entity>(additional);
-        }
-proof {
-            let bits = vx_bits_of::<Entity>();
-            let a0 = vx_w0.entity_allocator;
-            let m0 = vx_w0.archetypes@;
-            let m1 = self.archetypes@;
-            let k = vx_selected_key(m0, bits);
-            assert(self.entity_allocator == a0);
-            assert forall|k2: archetype::IdentifierRef<Registry>| m1.dom().contains(k2) implies
-                (#[trigger] m1[k2]).wf() && m1[k2].key() == k2 && m1[k2].agrees(&a0) by {
-                if k2 != k {
-                    assert(m0.dom().contains(k2) && m1[k2] == m0[k2]);
-                } else if m0.dom().contains(k) {
-                    assert(m0[k].agrees(&a0));
-                    assert forall|r: int| 0 <= r < m1[k].length implies a0.resolves(#[trigger] m1[k].ids()[r])
-                        && a0.view()[m1[k].ids()[r]] == (Location { identifier: m1[k].key(), index: r as usize }) by {
-                        assert(m1[k].ids()[r] == m0[k].ids()[r]);
-                    }
-                }
-            }
-            assert forall|i: entity::Identifier| a0.resolves(i) implies ({
-                let l = #[trigger] a0.view()[i];
-                m1.dom().contains(l.identifier) && l.index < m1[l.identifier].length && m1[l.identifier].ids()[l.index as int] == i
-            }) by {
-                let l = a0.view()[i];
-                assert(m0.dom().contains(l.identifier));
-                if l.identifier != k { assert(m1[l.identifier] == m0[l.identifier]); }
-            }
-            assert(self.view() =~= vx_w0.view()) by {
-                assert forall|i: entity::Identifier| self.view().dom().contains(i) implies #[trigger] self.view()[i] == vx_w0.view()[i] by {
-                    let l = a0.view()[i];
-                    assert(m0.dom().contains(l.identifier));
-                    if l.identifier != k { assert(m1[l.identifier] == m0[l.identifier]); }
-                }
-            }
-        }
-
-    }
-
-    pub fn contains(&self, entity_identifier: entity::Identifier) -> (b: bool)
-        ensures
-            b == self.view().dom().contains(entity_identifier),
-    {
-
-        self.entity_allocator.is_active(entity_identifier)
     
     }
 
-    pub fn len(&self) -> (n: usize)
-        ensures
-            n == self.len,
-    {
-
-        self.len
-    
-    }
-
-    pub fn is_empty(&self) -> (b: bool)
-        ensures
-            b == (self.len == 0),
-    {
-
-        self.len() == 0
-    
-    }
-
-}
-
-impl<Registry, Resources> World<Registry, Resources> where Registry: crate::Registry {
-    pub fn clone(&self) -> (r: Self)
+     fn get_with_foreign(&self, identifier: archetype::IdentifierRef<R>) -> (r: Option<&Archetype<R>>)
         requires
             self.wf(),
         ensures
-            r.entity_allocator.wf(),
-            vx_tables_ok(r.archetypes@, &r.entity_allocator),
-            vx_ids_stored(r.archetypes@, &r.entity_allocator),
-            vx_single_table(r.archetypes@),
-            r.len == r.entity_allocator.active_count() && r.len == self.len,
-            r.view() == self.view(),
-            r.resources == self.resources,
-            vx_no_duplicates::<Registry>(),
+            r is Some == (exists|k: archetype::IdentifierRef<R>| self@.dom().contains(k) && vx_key_bits(k) == vx_key_bits(identifier)),
+            r is Some ==> self@.dom().contains(r->0.key()) && *r->0 == self@[r->0.key()] && vx_key_bits(r->0.key()) == vx_key_bits(identifier),
     {
 
+        self.get(*self.foreign_identifier_lookup.vx_get(
 
-        let (archetypes, identifier_map) = unsafe { self.archetypes.clone() };
-proof {
-            let a0 = self.entity_allocator;
-            let m0 = self.archetypes@;
-            a0.lemma_slots_len_fits();
-            assert forall|s: int| 0 <= s < a0.slots@.len() && (#[trigger] a0.slots@[s]).location is Some
-                implies identifier_map@.dom().contains(a0.slots@[s].location->0.identifier) by {
-                let i = entity::Identifier { index: s as usize, generation: a0.slots@[s].generation };
-                assert(a0.resolves(i));
-                assert(m0.dom().contains(a0.view()[i].identifier));
-            }
-        }
-
-        let vx_r = Self {
-            archetypes,
-
-            entity_allocator: unsafe { self.entity_allocator.clone(&identifier_map) },
-            len: self.len,
-
-            resources: vx_clone(&self.resources),
-        };
-proof {
-            let a0 = self.entity_allocator;
-            let a1 = vx_r.entity_allocator;
-            let m0 = self.archetypes@;
-            let m1 = vx_r.archetypes@;
-            let map = identifier_map@;
-            // the key map covers every archetype a source slot refers to (safety precondition of Allocator::clone*)
-            a1.lemma_remapped_copy_wf(&a0, map);
-            lemma_count_same_activity(a1.slots@, a0.slots@);
-            assert forall|i: entity::Identifier| a1.resolves(i) implies a0.resolves(i)
-                && a1.view()[i] == (Location { identifier: map[a0.view()[i].identifier], index: a0.view()[i].index }) by { }
-            // W1
-            assert forall|k2: archetype::IdentifierRef<Registry>| m1.dom().contains(k2) implies
-                (#[trigger] m1[k2]).wf() && m1[k2].key() == k2 && m1[k2].agrees(&a1) by {
-                if exists|k: archetype::IdentifierRef<Registry>| m0.dom().contains(k) && map[k] == k2 {
-                    let k = choose|k: archetype::IdentifierRef<Registry>| m0.dom().contains(k) && map[k] == k2;
-                    assert(map.dom().contains(k));
-                    assert(m0[k].agrees(&a0));
-                    assert forall|r: int| 0 <= r < m1[k2].length implies a1.resolves(#[trigger] m1[k2].ids()[r])
-                        && a1.view()[m1[k2].ids()[r]] == (Location { identifier: m1[k2].key(), index: r as usize }) by {
-                        assert(a0.resolves(m0[k].ids()[r]));
-                    }
-                }
-            }
-            // W2
-            assert forall|i: entity::Identifier| a1.resolves(i) implies ({
-                let l = #[trigger] a1.view()[i];
-                m1.dom().contains(l.identifier) && l.index < m1[l.identifier].length && m1[l.identifier].ids()[l.index as int] == i
-            }) by {
-                let l0 = a0.view()[i];
-                assert(m0.dom().contains(l0.identifier));
-                assert(map.dom().contains(l0.identifier));
-            }
-            assert(vx_r.view() =~= self.view()) by {
-                assert forall|i: entity::Identifier| vx_r.view().dom().contains(i) implies #[trigger] vx_r.view()[i] == self.view()[i] by {
-                    let l0 = a0.view()[i];
-                    assert(m0.dom().contains(l0.identifier));
-                    assert(map.dom().contains(l0.identifier));
-                    assert(m0[l0.identifier].key() == l0.identifier);
-                }
-            }
-        }
-        vx_r
-
-    }
-
-    pub fn clone_from(&mut self, source: &Self)
-        requires
-            old(self).wf(),
-            source.wf(),
-        ensures
-            final(self).entity_allocator.wf(),
-            vx_tables_ok(final(self).archetypes@, &final(self).entity_allocator),
-            vx_ids_stored(final(self).archetypes@, &final(self).entity_allocator),
-            vx_single_table(final(self).archetypes@),
-            final(self).len == final(self).entity_allocator.active_count() && final(self).len == source.len,
-            final(self).view() == source.view(),
-            final(self).resources == source.resources,
-    {
-
-
-        let identifier_map = unsafe { self.archetypes.clone_from(&source.archetypes) };
-proof {
-            let a0 = source.entity_allocator;
-            let m0 = source.archetypes@;
-            a0.lemma_slots_len_fits();
-            assert forall|s: int| 0 <= s < a0.slots@.len() && (#[trigger] a0.slots@[s]).location is Some
-                implies identifier_map@.dom().contains(a0.slots@[s].location->0.identifier) by {
-                let i = entity::Identifier { index: s as usize, generation: a0.slots@[s].generation };
-                assert(a0.resolves(i));
-                assert(m0.dom().contains(a0.view()[i].identifier));
-            }
-        }
-
-
-        unsafe {
-            self.entity_allocator
-                .clone_from(&source.entity_allocator, &identifier_map);
-        }
-        self.len = source.len;
-
-        vx_clone_from(&mut self.resources, &source.resources);
-proof {
-            let a0 = source.entity_allocator;
-            let a1 = self.entity_allocator;
-            let m0 = source.archetypes@;
-            let m1 = self.archetypes@;
-            let map = identifier_map@;
-            // the key map covers every archetype a source slot refers to (safety precondition of Allocator::clone*)
-            a1.lemma_remapped_copy_wf(&a0, map);
-            lemma_count_same_activity(a1.slots@, a0.slots@);
-            assert forall|i: entity::Identifier| a1.resolves(i) implies a0.resolves(i)
-                && a1.view()[i] == (Location { identifier: map[a0.view()[i].identifier], index: a0.view()[i].index }) by { }
-            // W1
-            assert forall|k2: archetype::IdentifierRef<Registry>| m1.dom().contains(k2) implies
-                (#[trigger] m1[k2]).wf() && m1[k2].key() == k2 && m1[k2].agrees(&a1) by {
-                if exists|k: archetype::IdentifierRef<Registry>| m0.dom().contains(k) && map[k] == k2 {
-                    let k = choose|k: archetype::IdentifierRef<Registry>| m0.dom().contains(k) && map[k] == k2;
-                    assert(map.dom().contains(k));
-                    assert(m0[k].agrees(&a0));
-                    assert forall|r: int| 0 <= r < m1[k2].length implies a1.resolves(#[trigger] m1[k2].ids()[r])
-                        && a1.view()[m1[k2].ids()[r]] == (Location { identifier: m1[k2].key(), index: r as usize }) by {
-                        assert(a0.resolves(m0[k].ids()[r]));
-                    }
-                }
-            }
-            // W2
-            assert forall|i: entity::Identifier| a1.resolves(i) implies ({
-                let l = #[trigger] a1.view()[i];
-                m1.dom().contains(l.identifier) && l.index < m1[l.identifier].length && m1[l.identifier].ids()[l.index as int] == i
-            }) by {
-                let l0 = a0.view()[i];
-                assert(m0.dom().contains(l0.identifier));
-                assert(map.dom().contains(l0.identifier));
-            }
-            assert(self.view() =~= source.view()) by {
-                assert forall|i: entity::Identifier| self.view().dom().contains(i) implies #[trigger] self.view()[i] == source.view()[i] by {
-                    let l0 = a0.view()[i];
-                    assert(m0.dom().contains(l0.identifier));
-                    assert(map.dom().contains(l0.identifier));
-                    assert(m0[l0.identifier].key() == l0.identifier);
-                }
-            }
-        }
-
-    }
-
-}
-
-impl<Registry, Resources> World<Registry, Resources> where Registry: crate::Registry {
-    pub fn default() -> (r: Self)
-        ensures
-            r.wf(),
-            r.len == 0,
-    {
-
-        Self::with_resources(vx_default::<Resources>())
+            vx_as_bytes_ref(identifier),
+        )?)
     
     }
 
-}
-
-pub struct Entry<'a, Registry, Resources>
-where
-    Registry: crate::Registry, {
-    pub world: &'a mut World<Registry, Resources>,
-    pub location: Location<Registry>,
-}
-
-
-impl<'a, Registry: crate::Registry, Resources> Entry<'a, Registry, Resources> {
-    /// the entry points at a stored row of a well-formed world
-    pub open spec fn wf(&self) -> bool {
-        &&& self.world.wf()
-        &&& self.world.archetypes@.dom().contains(self.location.identifier)
-        &&& self.location.index < self.world.archetypes@[self.location.identifier].length
-    }
-    /// the identifier of the entity this entry refers to
-    pub open spec fn id(&self) -> entity::Identifier {
-        self.world.archetypes@[self.location.identifier].ids()[self.location.index as int]
-    }
-}
-/// byte buffer with bit `i` set
-pub open spec fn vx_bytes_set(bytes: Seq<u8>, i: int) -> Seq<u8> {
-    bytes.update(i / 8, bytes[i / 8] | (1u8 << ((i % 8) as u8)))
-}
-/// (component set, row) of an entity after `Entry::add(component)`: the cell is overwritten if
-/// the component is present, else the component joins the set
-pub open spec fn vx_added<R: Registry, C>(e: (VxBits, archetype::VxRow), c: C) -> (VxBits, archetype::VxRow) {
-    if vx_bit(e.0, vx_cidx::<C>() as int) { (e.0, archetype::vx_row_set(e.1, c)) }
-    else { (vx_bytes_set(e.0, vx_cidx::<C>() as int), archetype::vx_row_add(e.1, c)) }
-}
-/// byte buffer with bit `i` flipped (Entry::remove flips a bit it has just seen set)
-pub open spec fn vx_bytes_flip(bytes: Seq<u8>, i: int) -> Seq<u8> {
-    bytes.update(i / 8, bytes[i / 8] ^ (1u8 << ((i % 8) as u8)))
-}
-/// (component set, row) after `Entry::remove::<C>()`: unchanged if absent, else C leaves the set
-pub open spec fn vx_removed<R: Registry, C>(e: (VxBits, archetype::VxRow)) -> (VxBits, archetype::VxRow) {
-    if vx_bit(e.0, vx_cidx::<C>() as int) { (vx_bytes_flip(e.0, vx_cidx::<C>() as int), archetype::vx_row_remove(e.1, PhantomData::<C>)) }
-    else { e }
-}
-
-impl<'a, Registry, Resources> Entry<'a, Registry, Resources> where Registry: crate::Registry {
-    pub fn new(world: &'a mut World<Registry, Resources>, location: Location<Registry>,) -> (r: Self)
+     fn get_mut_with_foreign(&mut self, identifier: archetype::IdentifierRef<R>,) -> (r: Option<&mut Archetype<R>>)
+        requires
+            old(self).wf(),
         ensures
-            r.location == location && *r.world == *old(world),
+            r is Some == (exists|k: archetype::IdentifierRef<R>| old(self)@.dom().contains(k) && vx_key_bits(k) == vx_key_bits(identifier)),
+            r is Some ==> old(self)@.dom().contains(r->0.key()) && *r->0 == old(self)@[r->0.key()] && vx_key_bits(r->0.key()) == vx_key_bits(identifier) && final(self)@ == old(self)@.insert(r->0.key(), *final(r->0)),
+            r is None ==> final(self)@ == old(self)@,
+            final(self).foreign_identifier_lookup == old(self).foreign_identifier_lookup && final(self).type_id_lookup == old(self).type_id_lookup,
     {
 
-        Self { world, location }
+        self.get_mut(*self.foreign_identifier_lookup.vx_get(
+
+            vx_as_bytes_ref(identifier),
+        )?)
     
     }
 
-    pub fn add<Component, Index>(&mut self, component: Component)
+    pub fn get_mut_or_insert_new(&mut self, identifier_buffer: archetype::Identifier<R>,) -> (r: &mut Archetype<R>)
         requires
             old(self).wf(),
-            vx_cidx::<Component>() / 8 < vx_key_bits(old(self).location.identifier).len(),
-            forall|k: archetype::IdentifierRef<Registry>| old(self).world.archetypes@.dom().contains(k) ==> (#[trigger] old(self).world.archetypes@[k]).length < usize::MAX,
         ensures
-            final(self).world.entity_allocator.wf(),
-            vx_tables_ok(final(self).world.archetypes@, &final(self).world.entity_allocator),
-            vx_ids_stored(final(self).world.archetypes@, &final(self).world.entity_allocator),
-            vx_single_table(final(self).world.archetypes@),
-            final(self).world.len == final(self).world.entity_allocator.active_count() && final(self).world.len == old(self).world.len,
-            final(self).world.resources == old(self).world.resources,
-            final(self).wf() && final(self).id() == old(self).id(),
-            final(self).world.view() == old(self).world.view().insert(old(self).id(), vx_added::<Registry, Component>(old(self).world.view()[old(self).id()], component)),
+            (exists|k: archetype::IdentifierRef<R>| old(self)@.dom().contains(k) && vx_key_bits(k) == identifier_buffer.spec_bits()) ==> old(self)@.dom().contains(r.key()) && *r == old(self)@[r.key()] && vx_key_bits(r.key()) == identifier_buffer.spec_bits(),
+            !(exists|k: archetype::IdentifierRef<R>| old(self)@.dom().contains(k) && vx_key_bits(k) == identifier_buffer.spec_bits()) ==> !old(self)@.dom().contains(r.key()) && vx_fresh_table(*r, r.key(), identifier_buffer.spec_bits()),
+            final(self)@ == old(self)@.insert(r.key(), *final(r)),
+            final(self).inv_foreign_complete(old(self)@.dom().insert(r.key())),
+            final(self).inv_foreign_sound(old(self)@.dom().insert(r.key())),
+            final(self).inv_type_cache(old(self)@.dom().insert(r.key())),
     {
 
-let ghost vx_e0 = *self; let ghost vx_w0 = *self.world;
+proof { vx_axiom_ref_bits(&identifier_buffer); vx_axiom_fresh_buffer(&self.raw_archetypes, &identifier_buffer); }
 
-        let component_index = vx_component_index::<Component>();
-        if
+        if let Some(vx_ref_identifier) = self.foreign_identifier_lookup.vx_get(
 
-        unsafe { vx_ref_get_unchecked(self.location.identifier, component_index) } {
+            vx_as_bytes(&identifier_buffer),
+        ) { let identifier = *vx_ref_identifier;
+            if let Some(archetype) = self.get_mut(identifier) {
+                archetype
+            } else {
 
-            unsafe {
-                self.world
-                    .archetypes.vx_get_unchecked_mut(self.location.identifier)
-                    .set_component_unchecked(self.location.index, component);
+                unsafe { vx_unreachable() }
             }
         } else {
 
-            let (entity_identifier, current_component_bytes) =
-
-                unsafe {
-                self.world
-                    .archetypes.vx_get_unchecked_mut(self.location.identifier)
-                    .pop_row_unchecked(self.location.index, &mut self.world.entity_allocator)
-            };
-
-            let mut raw_identifier_buffer = vx_ref_as_vec(self.location.identifier);
-
-            *&mut raw_identifier_buffer[component_index / 8] |=
-                1 << (component_index % 8);
-            let identifier_buffer =
-
-                unsafe { archetype::Identifier::<Registry>::new(raw_identifier_buffer) };
-
-            let archetype = self
-                .world
-                .archetypes.vx_get_mut_or_insert_new(identifier_buffer);
-            let index =
-
-                unsafe {
-                archetype.push_from_buffer_and_component(
-                    entity_identifier,
-                    archetype::vx_as_ptr(&current_component_bytes),
-                    component,
-                )
-            };
-
-            let location = Location::new(unsafe { archetype.identifier() }, index);
-
             unsafe {
-                self.world
-                    .entity_allocator
-                    .modify_location_unchecked(entity_identifier, location);
+                self.foreign_identifier_lookup.vx_insert_unique_unchecked(
+                    vx_as_bytes(&identifier_buffer),
+                    identifier_buffer.as_ref(),
+                );
             }
-            self.location = location;
+            self.raw_archetypes.vx_insert_entry(
+
+                vx_make_hash(unsafe { identifier_buffer.as_ref() }, &self.hash_builder),
+                Archetype::new(identifier_buffer))
         }
     
     }
 
-    pub fn remove<Component, Index>(&mut self)
+    pub unsafe fn get_mut_or_insert_new_for_entity<E, P>(&mut self) -> (r: &mut Archetype<R>)
         requires
             old(self).wf(),
-            vx_cidx::<Component>() / 8 < vx_key_bits(old(self).location.identifier).len(),
-            forall|k: archetype::IdentifierRef<Registry>| old(self).world.archetypes@.dom().contains(k) ==> (#[trigger] old(self).world.archetypes@[k]).length < usize::MAX,
         ensures
-            final(self).world.entity_allocator.wf(),
-            vx_tables_ok(final(self).world.archetypes@, &final(self).world.entity_allocator),
-            vx_ids_stored(final(self).world.archetypes@, &final(self).world.entity_allocator),
-            vx_single_table(final(self).world.archetypes@),
-            final(self).world.len == final(self).world.entity_allocator.active_count() && final(self).world.len == old(self).world.len,
-            final(self).world.resources == old(self).world.resources,
-            final(self).wf() && final(self).id() == old(self).id(),
-            final(self).world.view() == old(self).world.view().insert(old(self).id(), vx_removed::<Registry, Component>(old(self).world.view()[old(self).id()])),
+            (exists|k: archetype::IdentifierRef<R>| old(self)@.dom().contains(k) && vx_key_bits(k) == vx_bits_of::<E>()) ==> old(self)@.dom().contains(r.key()) && *r == old(self)@[r.key()] && vx_key_bits(r.key()) == vx_bits_of::<E>(),
+            !(exists|k: archetype::IdentifierRef<R>| old(self)@.dom().contains(k) && vx_key_bits(k) == vx_bits_of::<E>()) ==> !old(self)@.dom().contains(r.key()) && vx_fresh_table(*r, r.key(), vx_bits_of::<E>()),
+            final(self)@ == old(self)@.insert(r.key(), *final(r)),
+            final(self).inv_foreign_complete(old(self)@.dom().insert(r.key())),
+            final(self).inv_foreign_sound(old(self)@.dom().insert(r.key())),
+            final(self).inv_type_cache(old(self)@.dom().insert(r.key())),
     {
 
-let ghost vx_e0 = *self; let ghost vx_w0 = *self.world;
 
-        let component_index = vx_component_index::<Component>();
-        if
+        if let Some(identifier) = self.type_id_lookup.get(&vx_type_id::<E>()) {
+            let hash = vx_make_hash(*identifier, &self.hash_builder);
 
-        unsafe { vx_ref_get_unchecked(self.location.identifier, component_index) } {
+            match self
+                .raw_archetypes.vx_get_mut(hash, *identifier) { Some(archetype_bucket) => archetype_bucket,
 
-            let (entity_identifier, current_component_bytes) =
-
-                unsafe {
-                self.world
-                    .archetypes.vx_get_unchecked_mut(self.location.identifier)
-                    .pop_row_unchecked(self.location.index, &mut self.world.entity_allocator)
-            };
-
-            let mut raw_identifier_buffer = vx_ref_as_vec(self.location.identifier);
-
-            *&mut raw_identifier_buffer[component_index / 8] ^=
-                1 << (component_index % 8);
-            let identifier_buffer =
-
-                unsafe { archetype::Identifier::<Registry>::new(raw_identifier_buffer) };
-
-            let archetype = self
-                .world
-                .archetypes.vx_get_mut_or_insert_new(identifier_buffer);
-            let index =
-
-                unsafe {
-                archetype.push_from_buffer_skipping_component::<Component>(
-                    entity_identifier,
-                    archetype::vx_as_ptr(&current_component_bytes),
-                )
-            };
-
-            let location = Location::new(unsafe { archetype.identifier() }, index);
-
-            unsafe {
-                self.world
-                    .entity_allocator
-                    .modify_location_unchecked(entity_identifier, location);
+                None => unsafe { vx_unreachable() },
             }
-            self.location = location;
+        } else {
+
+            let identifier_buffer = vx_create_archetype_identifier::<R, E>();
+proof { vx_axiom_ref_bits(&identifier_buffer); vx_axiom_fresh_buffer(&self.raw_archetypes, &identifier_buffer); }
+
+
+            let archetype = if let Some(vx_ref_identifier) = self.foreign_identifier_lookup.vx_get(
+
+                vx_as_bytes(&identifier_buffer),
+            ) { let identifier = *vx_ref_identifier;
+                if let Some(archetype) = self.raw_archetypes.vx_get_mut(
+                    vx_make_hash(identifier, &self.hash_builder),
+                    identifier,
+                ) {
+                    archetype
+                } else {
+
+                    unsafe { vx_unreachable() }
+                }
+            } else {
+
+                unsafe {
+                    self.foreign_identifier_lookup.vx_insert_unique_unchecked(
+                        vx_as_bytes(&identifier_buffer),
+                        identifier_buffer.as_ref(),
+                    );
+                }
+                self.raw_archetypes.vx_insert_entry(
+
+                    vx_make_hash(unsafe { identifier_buffer.as_ref() }, &self.hash_builder),
+                    Archetype::new(identifier_buffer))
+            };
+
+            self.type_id_lookup.insert(
+                vx_type_id::<E>(),
+
+                unsafe { archetype.identifier() },
+            );
+
+            archetype
         }
     
     }
 
-}
-
-impl<Registry, Resources> World<Registry, Resources> where Registry: crate::Registry {
-    pub fn entry(&mut self, entity_identifier: entity::Identifier,) -> (r: Option<Entry<Registry, Resources>>)
+    pub fn insert(&mut self, archetype: Archetype<R>) -> (r: Result<(), Archetype<R>>)
         requires
             old(self).wf(),
+            archetype.wf(),
         ensures
-            r is Some == old(self).view().dom().contains(entity_identifier),
-            r is Some ==> r->0.wf() && r->0.id() == entity_identifier && *r->0.world == *old(self),
+            (exists|k: archetype::IdentifierRef<R>| old(self)@.dom().contains(k) && vx_key_bits(k) == vx_key_bits(archetype.key())) == (r is Err),
+            r is Err ==> final(self)@ == old(self)@ && r == Err::<(), Archetype<R>>(archetype),
+            r is Ok ==> final(self)@ == old(self)@.insert(archetype.key(), archetype),
+            final(self).inv_keyed(),
+            final(self).inv_foreign_complete(final(self)@.dom()),
+            final(self).inv_foreign_sound(final(self)@.dom()),
+            final(self).inv_type_cache(final(self)@.dom()),
     {
 
-        match self.entity_allocator.get(entity_identifier) { Some(location) => Some(Entry::new(self, location)), None => None }
+proof { vx_axiom_fresh_table(&self.raw_archetypes, &archetype); }
+
+        let hash = vx_make_hash(
+
+            unsafe { archetype.identifier() },
+            &self.hash_builder,
+        );
+
+        if let Some(_existing_archetype) = self.get_with_foreign(unsafe { archetype.identifier() })
+        {
+            Err(archetype)
+        } else {
+
+            let identifier = unsafe { archetype.identifier() };
+
+            unsafe {
+                self.foreign_identifier_lookup.vx_insert_unique_unchecked(vx_as_bytes_ref(identifier), identifier);
+            }
+            self.raw_archetypes.vx_insert(hash, archetype);
+            Ok(())
+        }
     
+    }
+
+    pub unsafe fn clear(&mut self, entity_allocator: &mut Allocator<R>)
+        requires
+            old(self).inv_keyed(),
+            vx_tables_ok(old(self)@, old(entity_allocator)),
+            old(entity_allocator).wf(),
+        ensures
+            final(self)@.dom() == old(self)@.dom(),
+            forall|k: archetype::IdentifierRef<R>| final(self)@.dom().contains(k) ==> (#[trigger] final(self)@[k]).wf() && final(self)@[k].length == 0 && final(self)@[k].key() == k,
+            final(entity_allocator).wf(),
+            forall|i: entity::Identifier| final(entity_allocator).resolves(i) == (old(entity_allocator).resolves(i) && !vx_stored(old(self)@, i)),
+            final(entity_allocator).slots@.len() == old(entity_allocator).slots@.len(),
+            final(self).foreign_identifier_lookup == old(self).foreign_identifier_lookup && final(self).type_id_lookup == old(self).type_id_lookup,
+    {
+
+let ghost vx_a0 = *self; let ghost vx_alloc0 = *entity_allocator;
+
+        let vx_keys1 = self.raw_archetypes.vx_keys(); let vx_n1 = self.raw_archetypes.vx_len(vx_keys1); let mut vx_i1: usize = 0;
+proof { assert forall|j: int| 0 <= j < vx_n1 implies (#[trigger] vx_a0@[vx_keys1@[j]]).agrees(entity_allocator) by { assert(vx_keys1@.contains(vx_keys1@[j])); assert(vx_a0@.dom().contains(vx_keys1@[j])); } }
+ while vx_i1 < vx_n1 
+            invariant
+                vx_keys1@.len() == vx_n1 && vx_i1 <= vx_n1 && self.raw_archetypes.enumerates(vx_keys1@) && vx_a0.raw_archetypes.enumerates(vx_keys1@),
+                self@.dom() == vx_a0@.dom(),
+                self.foreign_identifier_lookup == vx_a0.foreign_identifier_lookup && self.type_id_lookup == vx_a0.type_id_lookup,
+                forall|j: int| 0 <= j < vx_i1 ==> (#[trigger] self@[vx_keys1@[j]]).wf() && self@[vx_keys1@[j]].length == 0 && self@[vx_keys1@[j]].key() == vx_keys1@[j],
+                forall|j: int| vx_i1 <= j < vx_n1 ==> (#[trigger] self@[vx_keys1@[j]]) == vx_a0@[vx_keys1@[j]],
+                forall|j: int| vx_i1 <= j < vx_n1 ==> (#[trigger] vx_a0@[vx_keys1@[j]]).agrees(entity_allocator),
+                entity_allocator.wf(),
+                forall|i: entity::Identifier| entity_allocator.resolves(i) == (vx_alloc0.resolves(i) && !vx_stored_prefix(vx_a0@, vx_keys1@, vx_i1 as int, i)),
+                forall|i: entity::Identifier| entity_allocator.resolves(i) ==> entity_allocator.view()[i] == vx_alloc0.view()[i],
+                entity_allocator.slots@.len() == vx_alloc0.slots@.len(),
+                vx_a0.inv_keyed() && vx_tables_ok(vx_a0@, &vx_alloc0),
+            decreases vx_n1 - vx_i1
+{
+ let archetype = self.raw_archetypes.vx_nth_mut(vx_i1, vx_keys1);
+
+
+let ghost vx_pre_alloc = *entity_allocator; let ghost vx_k = vx_keys1@[vx_i1 as int]; proof { assert(vx_a0@.dom().contains(vx_k)) by { assert(vx_keys1@.contains(vx_k)); } }
+            unsafe { archetype.clear(entity_allocator) };
+proof {
+                let k = vx_k;
+                let t0 = vx_a0@[k];
+                assert(self@.dom() =~= vx_a0@.dom());
+                assert forall|j: int| vx_i1 + 1 <= j < vx_n1 implies (#[trigger] self@[vx_keys1@[j]]) == vx_a0@[vx_keys1@[j]] by {
+                    assert(vx_keys1@[j] != k);
+                }
+                assert forall|j: int| 0 <= j < vx_i1 + 1 implies (#[trigger] self@[vx_keys1@[j]]).wf() && self@[vx_keys1@[j]].length == 0 && self@[vx_keys1@[j]].key() == vx_keys1@[j] by {
+                    if j < vx_i1 { assert(vx_keys1@[j] != k); }
+                }
+                // tables still to do keep agreeing: their identifiers are not the ones just released
+                assert forall|j: int| vx_i1 + 1 <= j < vx_n1 implies (#[trigger] vx_a0@[vx_keys1@[j]]).agrees(entity_allocator) by {
+                    let t = vx_a0@[vx_keys1@[j]];
+                    assert(vx_a0@.dom().contains(vx_keys1@[j])) by { assert(vx_keys1@.contains(vx_keys1@[j])); }
+                    assert(t.agrees(&vx_pre_alloc));
+                    assert(t.key() == vx_keys1@[j]);
+                    assert forall|r: int| 0 <= r < t.length implies entity_allocator.resolves(#[trigger] t.ids()[r])
+                        && entity_allocator.view()[t.ids()[r]] == (Location { identifier: t.key(), index: r as usize }) by {
+                        let i = t.ids()[r];
+                        assert(vx_pre_alloc.resolves(i));
+                        if t0.ids().contains(i) {
+                            let q = choose|q: int| 0 <= q < t0.ids().len() && t0.ids()[q] == i;
+                            assert(vx_pre_alloc.view()[t0.ids()[q]].identifier == t0.key());
+                        }
+                    }
+                }
+                assert forall|i: entity::Identifier| entity_allocator.resolves(i) == (vx_alloc0.resolves(i) && !vx_stored_prefix(vx_a0@, vx_keys1@, vx_i1 + 1, i)) by {
+                    lemma_stored_prefix_step(vx_a0@, vx_keys1@, vx_i1 as int, i);
+                    assert(entity_allocator.resolves(i) == (vx_pre_alloc.resolves(i) && !t0.ids().contains(i)));
+                    assert(vx_pre_alloc.resolves(i) == (vx_alloc0.resolves(i) && !vx_stored_prefix(vx_a0@, vx_keys1@, vx_i1 as int, i)));
+                    assert(t0 == vx_a0@[vx_keys1@[vx_i1 as int]]);
+                }
+            }
+
+        
+ vx_i1 += 1;
+ }
+proof {
+            assert(self@.dom() =~= vx_a0@.dom());
+            assert forall|k: archetype::IdentifierRef<R>| self@.dom().contains(k) implies (#[trigger] self@[k]).wf() && self@[k].length == 0 && self@[k].key() == k by {
+                assert(vx_keys1@.contains(k));
+                let j = choose|j: int| 0 <= j < vx_keys1@.len() && vx_keys1@[j] == k;
+                assert(self@[vx_keys1@[j]].length == 0);
+            }
+            assert forall|i: entity::Identifier| entity_allocator.resolves(i) == (vx_alloc0.resolves(i) && !vx_stored(vx_a0@, i)) by {
+                lemma_stored_prefix_all(vx_a0@, vx_keys1@, i);
+                assert(vx_i1 == vx_keys1@.len());
+            }
+        }
+
+    }
+
+}
+
+impl<R> Archetypes<R> where R: Registry {
+    pub unsafe fn clone_from(&mut self, source: &Self,) -> (r: VxKeyMap<R>)
+        requires
+            old(self).wf(),
+            source.wf(),
+            vx_tables_wf(old(self)@) && vx_tables_wf(source@),
+        ensures
+            vx_is_key_map(r@, source@, final(self)@),
+            vx_single_table(final(self)@),
+            final(self).wf(),
+    {
+
+let ghost vx_a0 = *self; let ghost mut vx_m1 = *self; let ghost mut vx_m2 = *self; let ghost mut vx_vals = ISet::<archetype::IdentifierRef<R>>::empty(); let ghost mut vx_k2 = Seq::<archetype::IdentifierRef<R>>::empty(); proof { source.lemma_single_table(); }
+
+        let mut identifier_map =
+            VxKeyMap::vx_with_capacity(self.raw_archetypes.len());
+
+        let vx_keys1 = source.raw_archetypes.vx_keys(); let vx_n1 = source.raw_archetypes.vx_len(vx_keys1); let mut vx_i1: usize = 0;
+ while vx_i1 < vx_n1 
+            invariant
+                vx_keys1@.len() == vx_n1 && vx_i1 <= vx_n1 && source.raw_archetypes.enumerates(vx_keys1@),
+                self.wf() && vx_tables_wf(self@) && source.wf() && vx_tables_wf(source@) && vx_single_table(source@),
+                forall|j: int| 0 <= j < vx_i1 ==> vx_copied(identifier_map@, self@, source@, #[trigger] vx_keys1@[j]),
+                forall|k: archetype::IdentifierRef<R>| #[trigger] identifier_map@.dom().contains(k) ==> (exists|j: int| 0 <= j < vx_i1 && vx_keys1@[j] == k),
+            decreases vx_n1 - vx_i1
+{
+ let source_archetype = source.raw_archetypes.vx_nth(vx_i1, vx_keys1);
+let ghost vx_s1 = *self; let ghost vx_map1 = identifier_map@; proof { self.lemma_single_table(); assert(source@.dom().contains(vx_keys1@[vx_i1 as int])) by { assert(vx_keys1@.contains(vx_keys1@[vx_i1 as int])); } }
+
+
+            if let Some(archetype) = self.get_mut_with_foreign(
+
+                unsafe { source_archetype.identifier() },
+            ) {
+                vx_archetype_clone_from(archetype, source_archetype);
+                identifier_map.insert(
+
+                    unsafe { source_archetype.identifier() },
+
+                    unsafe { archetype.identifier() },
+                );
+            } else {
+
+                let archetype = vx_archetype_clone(source_archetype);
+                identifier_map.insert(
+
+                    unsafe { source_archetype.identifier() },
+
+                    unsafe { archetype.identifier() },
+                );
+                
+                {
+                    self.insert(archetype);
+                }
+            }
+        
+proof {
+                let i = vx_i1 as int;
+                let k = vx_keys1@[i];
+                let src = source@[k];
+                assert(src.key() == k);
+                let k2 = identifier_map@[k];
+                assert(identifier_map@.dom().contains(k));
+                assert(vx_key_bits(k2) == vx_key_bits(k));
+                assert forall|kk: archetype::IdentifierRef<R>| #[trigger] identifier_map@.dom().contains(kk) implies (exists|j: int| 0 <= j < i + 1 && vx_keys1@[j] == kk) by {
+                    if kk == k { assert(vx_keys1@[i] == kk); } else {
+                        assert(vx_map1.dom().contains(kk));
+                        let j = choose|j: int| 0 <= j < i && vx_keys1@[j] == kk;
+                        assert(0 <= j < i + 1 && vx_keys1@[j] == kk);
+                    }
+                }
+                assert(self@.dom().contains(k2));
+                assert(vx_table_copy(self@[k2], src, k2));
+                assert forall|j: int| 0 <= j < i + 1 implies vx_copied(identifier_map@, self@, source@, #[trigger] vx_keys1@[j]) by {
+                    if j == i {
+                        assert(vx_keys1@[j] == k);
+                        assert(vx_table_copy(self@[identifier_map@[vx_keys1@[j]]], source@[vx_keys1@[j]], identifier_map@[vx_keys1@[j]]));
+                    } else {
+                        // earlier copies are untouched: they live under keys with other component bytes
+                        let kj = vx_keys1@[j];
+                        assert(kj != k);
+                        assert(source@.dom().contains(kj)) by { assert(vx_keys1@.contains(kj)); }
+                        assert(vx_map1.dom().contains(kj));
+                        assert(identifier_map@[kj] == vx_map1[kj]);
+                        assert(vx_s1@.dom().contains(vx_map1[kj]));
+                        assert(vx_table_copy(vx_s1@[vx_map1[kj]], source@[kj], vx_map1[kj]));
+                        assert(source@[kj].key() == kj);
+                        assert(vx_key_bits(vx_map1[kj]) == vx_key_bits(kj));
+                        assert(vx_key_bits(kj) != vx_key_bits(k));
+                        assert(vx_map1[kj] != k2);
+                        assert(self@.dom().contains(vx_map1[kj]));
+                        assert(self@[vx_map1[kj]] == vx_s1@[vx_map1[kj]]);
+                    }
+                }
+                assert(vx_tables_wf(self@)) by {
+                    assert forall|kk: archetype::IdentifierRef<R>| self@.dom().contains(kk) implies (#[trigger] self@[kk]).wf() by {
+                        if kk != k2 { assert(vx_s1@.dom().contains(kk) && self@[kk] == vx_s1@[kk]); }
+                    }
+                }
+            }
+ vx_i1 += 1;
+ }
+
+        let cloned_archetype_identifiers = identifier_map.vx_values();
+        let vx_keys2 = self.raw_archetypes.vx_keys(); let vx_n2 = self.raw_archetypes.vx_len(vx_keys2); let mut vx_i2: usize = 0;
+proof { vx_m1 = *self; vx_vals = cloned_archetype_identifiers@; vx_k2 = vx_keys2@; assert forall|j: int| 0 <= j < vx_n2 implies (#[trigger] self@[vx_keys2@[j]]) == vx_m1@[vx_keys2@[j]] by { } }
+ while vx_i2 < vx_n2 
+            invariant
+                vx_keys2@.len() == vx_n2 && vx_i2 <= vx_n2 && self.raw_archetypes.enumerates(vx_keys2@) && vx_m1.raw_archetypes.enumerates(vx_keys2@),
+                self@.dom() == vx_m1@.dom() && self.foreign_identifier_lookup == vx_m1.foreign_identifier_lookup && self.type_id_lookup == vx_m1.type_id_lookup,
+                forall|j: int| 0 <= j < vx_i2 ==> (#[trigger] self@[vx_keys2@[j]]).wf() && self@[vx_keys2@[j]].key() == vx_keys2@[j] && (if cloned_archetype_identifiers@.contains(vx_keys2@[j]) { self@[vx_keys2@[j]] == vx_m1@[vx_keys2@[j]] } else { self@[vx_keys2@[j]].length == 0 }),
+                forall|j: int| vx_i2 <= j < vx_n2 ==> (#[trigger] self@[vx_keys2@[j]]) == vx_m1@[vx_keys2@[j]],
+                vx_m1.wf() && vx_tables_wf(vx_m1@),
+            decreases vx_n2 - vx_i2
+{
+let ghost vx_s2 = *self; proof { assert(vx_m1@.dom().contains(vx_keys2@[vx_i2 as int])) by { assert(vx_keys2@.contains(vx_keys2@[vx_i2 as int])); } }
+ let archetype = self.raw_archetypes.vx_nth_mut(vx_i2, vx_keys2);
+
+
+            if !cloned_archetype_identifiers.contains(&unsafe { archetype.identifier() }) {
+                archetype.clear_detached();
+            }
+        
+proof {
+                let i = vx_i2 as int;
+                let k = vx_keys2@[i];
+                assert forall|j: int| i + 1 <= j < vx_n2 implies (#[trigger] self@[vx_keys2@[j]]) == vx_m1@[vx_keys2@[j]] by {
+                    assert(vx_keys2@[j] != k);
+                    assert(vx_s2@[vx_keys2@[j]] == vx_m1@[vx_keys2@[j]]);
+                }
+                assert forall|j: int| 0 <= j < i + 1 implies (#[trigger] self@[vx_keys2@[j]]).wf() && self@[vx_keys2@[j]].key() == vx_keys2@[j]
+                    && (if cloned_archetype_identifiers@.contains(vx_keys2@[j]) { self@[vx_keys2@[j]] == vx_m1@[vx_keys2@[j]] } else { self@[vx_keys2@[j]].length == 0 }) by {
+                    if j < i { assert(vx_keys2@[j] != k); assert(self@[vx_keys2@[j]] == vx_s2@[vx_keys2@[j]]); }
+                    else { assert(vx_m1@[k].wf() && vx_m1@[k].key() == k); }
+                }
+                assert(self@.dom() =~= vx_m1@.dom());
+            }
+ vx_i2 += 1;
+ }
+        
+
+        let vx_keys3 = source.type_id_lookup.vx_keys(); let vx_n3 = source.type_id_lookup.vx_len(vx_keys3); let mut vx_i3: usize = 0;
+proof {
+            vx_m2 = *self;
+            assert(self@.dom() =~= vx_m1@.dom());
+            assert forall|t: TypeId| #[trigger] self.type_id_lookup@.dom().contains(t) implies
+                self@.dom().contains(self.type_id_lookup@[t]) && vx_key_bits(self.type_id_lookup@[t]) == vx_type_bits(t) by {
+                assert(vx_m1.type_id_lookup@.dom().contains(t));
+            }
+            assert forall|k: archetype::IdentifierRef<R>| #[trigger] source@.dom().contains(k) implies (identifier_map@.dom().contains(k)
+                && self@.dom().contains(identifier_map@[k]) && vx_key_bits(identifier_map@[k]) == vx_key_bits(k)) by {
+                assert(vx_keys1@.contains(k));
+                let j = choose|j: int| 0 <= j < vx_keys1@.len() && vx_keys1@[j] == k;
+                assert(0 <= j < vx_n1);
+                assert(identifier_map@.dom().contains(vx_keys1@[j]) && vx_m1@.dom().contains(identifier_map@[vx_keys1@[j]])
+                    && vx_table_copy(vx_m1@[identifier_map@[vx_keys1@[j]]], source@[vx_keys1@[j]], identifier_map@[vx_keys1@[j]]));
+                assert(source@[k].key() == k);
+            }
+        }
+ while vx_i3 < vx_n3 
+            invariant
+                vx_keys3@.len() == vx_n3 && vx_i3 <= vx_n3 && source.type_id_lookup.enumerates(vx_keys3@),
+                self.raw_archetypes == vx_m2.raw_archetypes && self.foreign_identifier_lookup == vx_m2.foreign_identifier_lookup,
+                self.inv_type_cache(self@.dom()),
+                forall|k: archetype::IdentifierRef<R>| #[trigger] source@.dom().contains(k) ==> identifier_map@.dom().contains(k),
+                forall|k: archetype::IdentifierRef<R>| #[trigger] source@.dom().contains(k) ==> self@.dom().contains(identifier_map@[k]),
+                forall|k: archetype::IdentifierRef<R>| #[trigger] source@.dom().contains(k) ==> vx_key_bits(identifier_map@[k]) == vx_key_bits(k),
+                source.wf(),
+            decreases vx_n3 - vx_i3
+{
+ let (type_id, identifier) = source.type_id_lookup.vx_nth_pair(vx_i3, vx_keys3);
+proof {
+                let t = vx_keys3@[vx_i3 as int];
+                assert(source.type_id_lookup@.dom().contains(t)) by { assert(vx_keys3@.contains(t)); }
+                assert(source@.dom().contains(source.type_id_lookup@[t]));
+            }
+
+
+            self.type_id_lookup.insert(
+                type_id,
+
+                *unsafe { identifier_map.get(identifier).unwrap() },
+            );
+        
+ vx_i3 += 1;
+ }
+
+proof {
+            let map = identifier_map@;
+            assert(self@ == vx_m2@);
+            assert(self@.dom() =~= vx_m1@.dom());
+            // tables after the clearing pass
+            assert forall|k2: archetype::IdentifierRef<R>| #[trigger] self@.dom().contains(k2) implies
+                self@[k2].wf() && self@[k2].key() == k2 && (if vx_vals.contains(k2) { self@[k2] == vx_m1@[k2] } else { self@[k2].length == 0 }) by {
+                assert(vx_k2.contains(k2));
+                let j = choose|j: int| 0 <= j < vx_k2.len() && vx_k2[j] == k2;
+                assert(self@[vx_k2[j]].wf());
+            }
+            assert forall|k: archetype::IdentifierRef<R>| source@.dom().contains(k) implies
+                #[trigger] map.dom().contains(k) && self@.dom().contains(map[k]) && vx_table_copy(self@[map[k]], source@[k], map[k]) by {
+                assert(vx_keys1@.contains(k));
+                let j = choose|j: int| 0 <= j < vx_keys1@.len() && vx_keys1@[j] == k;
+                assert(map.dom().contains(vx_keys1@[j]));
+                assert(vx_vals.contains(map[k]));
+                assert(vx_m1@.dom().contains(map[k]));
+            }
+            assert forall|k1: archetype::IdentifierRef<R>, k2: archetype::IdentifierRef<R>|
+                source@.dom().contains(k1) && source@.dom().contains(k2) && #[trigger] map[k1] == #[trigger] map[k2] implies k1 == k2 by {
+                assert(map.dom().contains(k1) && map.dom().contains(k2));
+                assert(source@[k1].key() == k1 && source@[k2].key() == k2);
+                assert(vx_key_bits(k1) == vx_key_bits(map[k1]));
+                assert(vx_key_bits(k2) == vx_key_bits(map[k2]));
+            }
+            assert forall|k2: archetype::IdentifierRef<R>| #[trigger] self@.dom().contains(k2) implies
+                self@[k2].wf() && self@[k2].key() == k2 && ((exists|k: archetype::IdentifierRef<R>| source@.dom().contains(k) && map[k] == k2) || self@[k2].length == 0) by {
+                if vx_vals.contains(k2) {
+                    let k = choose|k: archetype::IdentifierRef<R>| map.dom().contains(k) && map[k] == k2;
+                    let j = choose|j: int| 0 <= j < vx_n1 && vx_keys1@[j] == k;
+                    assert(vx_keys1@.contains(k));
+                    assert(source@.dom().contains(k) && map[k] == k2);
+                }
+            }
+            assert(self.lookups_ok(self@.dom())) by {
+                assert(self.foreign_identifier_lookup == vx_m1.foreign_identifier_lookup);
+                assert(vx_m1.lookups_ok(vx_m1@.dom()));
+            }
+            self.lemma_single_table();
+        }
+        identifier_map
+
     }
 
 }
 
 
-// ---- R7/A10: the serde SeqAccess the world visitor reads from.  The three element
-// deserializers (DeserializeArchetypes, DeserializeAllocator, resource::Deserializer) are
-// assumed-contract calls: what each yields is an uninterpreted function of the stream state, so
-// the visitor's contract says the world is built from exactly those three values.
+/// `a` is table `b` after `Archetype::shrink_to_fit` (or untouched): same key, identifiers, rows
+pub open spec fn vx_same_table<R: Registry>(a: archetype::Archetype<R>, b: archetype::Archetype<R>) -> bool {
+    a.wf() && a.key() == b.key() && a.length == b.length && a.ids() == b.ids() && a.rows() == b.rows()
+}
+
+
+// ---- R9/A10: the serde SeqAccess the archetypes visitor reads tables from.  Ghost state: the
+// tables yielded so far and the sum of their lengths (each row owns a 16-byte identifier in live
+// memory, so the sum fits usize: A5).
 #[verifier::external_body]
-pub struct VxSeq { _p: () }
-// ---- R15: `a == b` on non-primitive operands is the PartialEq::eq call of the operand type.
-// Archetypes::eq is verified in unit archs, Allocator::eq / component_eq are decided by K-eq,
-// the resource list's PartialEq is user code (A8).
-pub uninterp spec fn vx_archetypes_eq<R: Registry>(a: Archetypes<R>, b: Archetypes<R>) -> bool;
-pub uninterp spec fn vx_allocator_eq<R: Registry>(a: Allocator<R>, b: Allocator<R>) -> bool;
-pub uninterp spec fn vx_values_eq<T>(a: T, b: T) -> bool;
-#[verifier::external_body]
-pub fn vx_eq_archetypes<R: Registry>(a: &Archetypes<R>, b: &Archetypes<R>) -> (r: bool) ensures r == vx_archetypes_eq(*a, *b) { unimplemented!() }
-#[verifier::external_body]
-pub fn vx_eq_allocator<R: Registry>(a: &Allocator<R>, b: &Allocator<R>) -> (r: bool) ensures r == vx_allocator_eq(*a, *b) { unimplemented!() }
-#[verifier::external_body]
-pub fn vx_eq_values<T>(a: &T, b: &T) -> (r: bool) ensures r == vx_values_eq(*a, *b) { unimplemented!() }
+#[verifier::accept_recursive_types(R)]
+pub struct VxTableSeq<R: Registry> { p: PhantomData<R> }
 #[verifier::external_body]
 pub struct VxErr { _p: () }
-pub struct VxResDe<T>(pub T);
-pub uninterp spec fn vx_seq_next(s: VxSeq) -> VxSeq;
-pub uninterp spec fn vx_seq_archs<R: Registry>(s: VxSeq) -> Archetypes<R>;
-pub uninterp spec fn vx_seq_len(s: VxSeq) -> usize;
-pub uninterp spec fn vx_seq_alloc<R: Registry>(s: VxSeq) -> Allocator<R>;
-pub uninterp spec fn vx_seq_res<T>(s: VxSeq) -> T;
-#[verifier::external_body]
-pub fn vx_next_archetypes<R: Registry>(seq: &mut VxSeq, len: &mut usize) -> (r: Result<Option<Archetypes<R>>, VxErr>)
-    ensures *final(seq) == vx_seq_next(*old(seq)),
-            r is Ok && r->Ok_0 is Some ==> r->Ok_0->0 == vx_seq_archs::<R>(*old(seq)) && *final(len) == vx_seq_len(*old(seq)) { unimplemented!() }
-#[verifier::external_body]
-pub fn vx_next_allocator<R: Registry>(seq: &mut VxSeq, archetypes: &Archetypes<R>) -> (r: Result<Option<Allocator<R>>, VxErr>)
-    ensures *final(seq) == vx_seq_next(*old(seq)),
-            r is Ok && r->Ok_0 is Some ==> r->Ok_0->0 == vx_seq_alloc::<R>(*old(seq)) { unimplemented!() }
-#[verifier::external_body]
-pub fn vx_next_resources<T>(seq: &mut VxSeq) -> (r: Result<Option<VxResDe<T>>, VxErr>)
-    ensures *final(seq) == vx_seq_next(*old(seq)),
-            r is Ok && r->Ok_0 is Some ==> (r->Ok_0->0).0 == vx_seq_res::<T>(*old(seq)) { unimplemented!() }
-// ---- R9/A10: the serde Serializer World::serialize writes to.  Ghost state: the elements
-// written so far, each as an abstract token of the value handed to `serialize_element`.
-#[verifier::external_body]
-pub struct VxSerializer { _p: () }
-#[verifier::external_body]
-pub struct VxTuple { _p: () }
-#[verifier::external_body]
-pub struct VxSerOk { _p: () }
-pub struct VxTok { pub id: int }
-pub struct VxResSer<'a, T>(pub &'a T);
-pub uninterp spec fn vx_ser_of<T>(v: T) -> VxTok;
-impl VxSerializer {
+impl<R: Registry> VxTableSeq<R> {
+    pub uninterp spec fn yielded(&self) -> Seq<archetype::Archetype<R>>;
+    pub uninterp spec fn total(&self) -> usize;
+    /// elements left in the (finite) input
+    pub uninterp spec fn remaining(&self) -> nat;
     #[verifier::external_body]
-    pub fn serialize_tuple(self, n: usize) -> (r: Result<VxTuple, VxErr>)
-        ensures r is Ok ==> r->Ok_0.declared() == n && r->Ok_0.elems() == Seq::<VxTok>::empty() { unimplemented!() }
-}
-impl VxTuple {
-    pub uninterp spec fn declared(&self) -> usize;
-    pub uninterp spec fn elems(&self) -> Seq<VxTok>;
+    pub fn vx_capacity_hint(&self) -> (n: usize) { unimplemented!() }
     #[verifier::external_body]
-    pub fn serialize_element<T>(&mut self, v: &T) -> (r: Result<(), VxErr>)
-        ensures final(self).declared() == old(self).declared(),
-                r is Ok ==> final(self).elems() == old(self).elems().push(vx_ser_of(*v)) { unimplemented!() }
-    #[verifier::external_body]
-    pub fn end(self) -> (r: Result<VxSerOk, VxErr>)
-        ensures r is Ok ==> r->Ok_0.elems() == self.elems() && r->Ok_0.declared() == self.declared() { unimplemented!() }
-}
-impl VxSerOk {
-    pub uninterp spec fn declared(&self) -> usize;
-    pub uninterp spec fn elems(&self) -> Seq<VxTok>;
-}
-/// `Option::ok_or_else(|| de::Error::invalid_length(n, &self))`
-#[verifier::external_body]
-pub fn vx_some_or_invalid_length<T>(o: Option<T>, n: usize) -> (r: Result<T, VxErr>)
-    ensures o is Some ==> r == Result::<T, VxErr>::Ok(o->0),
-            o is None ==> r is Err { unimplemented!() }
-
-impl<Registry, Resources> World<Registry, Resources> where Registry: crate::Registry {
-    pub fn vx_visit_seq(mut seq: VxSeq) -> (r: Result<World<Registry, Resources>, VxErr>)
+    pub fn vx_next_element(&mut self) -> (r: Result<Option<archetype::Archetype<R>>, VxErr>)
         ensures
-            r is Ok ==> vx_no_duplicates::<Registry>(),
-            r is Ok ==> r->Ok_0.archetypes == vx_seq_archs::<Registry>(seq) && r->Ok_0.len == vx_seq_len(seq),
-            r is Ok ==> r->Ok_0.entity_allocator == vx_seq_alloc::<Registry>(vx_seq_next(seq)),
-            r is Ok ==> r->Ok_0.resources == vx_seq_res::<Resources>(vx_seq_next(vx_seq_next(seq))),
+            r is Ok && r->Ok_0 is Some ==> final(self).yielded() == old(self).yielded().push(r->Ok_0->0) && r->Ok_0->0.wf()
+                && final(self).total() == old(self).total() + r->Ok_0->0.length && final(self).remaining() < old(self).remaining(),
+            r is Ok && r->Ok_0 is None ==> final(self).yielded() == old(self).yielded() && final(self).total() == old(self).total(),
+    { unimplemented!() }
+}
+#[verifier::external_body]
+pub fn vx_custom_error() -> (e: VxErr) { unimplemented!() }
+
+impl<R> Archetypes<R> where R: Registry {
+    pub fn vx_visit_seq(len: &mut usize, seq: &mut VxTableSeq<R>) -> (r: Result<Archetypes<R>, VxErr>)
+        requires
+            *old(len) == old(seq).total(),
+            old(seq).yielded().len() == 0,
+        ensures
+            r is Ok ==> r->Ok_0.wf() && vx_tables_wf(r->Ok_0@),
+            r is Ok ==> forall|j: int| 0 <= j < final(seq).yielded().len() ==> r->Ok_0@.dom().contains((#[trigger] final(seq).yielded()[j]).key()) && r->Ok_0@[final(seq).yielded()[j].key()] == final(seq).yielded()[j],
+            r is Ok ==> forall|k: archetype::IdentifierRef<R>| r->Ok_0@.dom().contains(k) ==> (exists|j: int| 0 <= j < final(seq).yielded().len() && (#[trigger] final(seq).yielded()[j]).key() == k),
+            r is Ok ==> forall|a: int, b: int| 0 <= a < b < final(seq).yielded().len() ==> vx_key_bits((#[trigger] final(seq).yielded()[a]).key()) != vx_key_bits((#[trigger] final(seq).yielded()[b]).key()),
+            r is Ok ==> *final(len) == final(seq).total(),
     {
 
-                let mut len = 0;
-                let archetypes = vx_some_or_invalid_length(vx_next_archetypes::<Registry>(&mut seq, &mut len)?, 0)?;
-                let entity_allocator = vx_some_or_invalid_length(vx_next_allocator::<Registry>(&mut seq, &archetypes)?, 1)?;
-                let resources: VxResDe<Resources> = vx_some_or_invalid_length(vx_next_resources::<Resources>(&mut seq)?, 2)?;
-                Ok(World::from_raw_parts(
-                    archetypes,
-                    entity_allocator,
-                    len,
-                    resources.0,
-                ))
+let ghost mut vx_prev = seq.yielded();
+
+                let mut archetypes =
+                    Archetypes::with_capacity(seq.vx_capacity_hint());
+                while let Some(archetype) = seq.vx_next_element()? 
+            invariant
+                vx_prev == seq.yielded(),
+                archetypes.wf() && vx_tables_wf(archetypes@),
+                *len == seq.total(),
+                forall|j: int| 0 <= j < seq.yielded().len() ==> archetypes@.dom().contains((#[trigger] seq.yielded()[j]).key()) && archetypes@[seq.yielded()[j].key()] == seq.yielded()[j],
+                forall|k: archetype::IdentifierRef<R>| archetypes@.dom().contains(k) ==> (exists|j: int| 0 <= j < seq.yielded().len() && (#[trigger] seq.yielded()[j]).key() == k),
+                forall|a: int, b: int| 0 <= a < b < seq.yielded().len() ==> vx_key_bits((#[trigger] seq.yielded()[a]).key()) != vx_key_bits((#[trigger] seq.yielded()[b]).key()),
+            decreases seq.remaining()
+{
+let ghost vx_y0 = seq.yielded(); let ghost vx_t0 = archetypes@; let ghost vx_new = archetype;
+                    *len += archetype.len();
+                    if let Err(archetype) = archetypes.insert(archetype) {
+                        return Err(vx_custom_error());
+                    }
+proof {
+                        // the table just read went in under its own key; everything else is as before
+                        let n = vx_y0.len() as int;
+                        assert(vx_y0 == vx_prev.push(vx_new));
+                        assert(archetypes@ == vx_t0.insert(vx_new.key(), vx_new));
+                        assert forall|k: archetype::IdentifierRef<R>| archetypes@.dom().contains(k) implies (exists|j: int| 0 <= j < n && (#[trigger] vx_y0[j]).key() == k) by {
+                            if k == vx_new.key() { assert(vx_y0[n - 1].key() == k); }
+                            else {
+                                assert(vx_t0.dom().contains(k));
+                                let j = choose|j: int| 0 <= j < vx_prev.len() && (#[trigger] vx_prev[j]).key() == k;
+                                assert(vx_y0[j] == vx_prev[j]);
+                                assert(0 <= j < n && vx_y0[j].key() == k);
+                            }
+                        }
+                        vx_prev = vx_y0;
+                    }
+
+                }
+                Ok(archetypes)
             
     }
 
 }
 
-impl<Registry, Resources> World<Registry, Resources> where Registry: crate::Registry {
+impl<R> Archetypes<R> where R: Registry {
     pub fn eq(&self, other: &Self) -> (b: bool)
+        requires
+            self.wf(),
+            other.wf(),
         ensures
-            b == (self.len == other.len && vx_archetypes_eq(self.archetypes, other.archetypes) && vx_allocator_eq(self.entity_allocator, other.entity_allocator) && vx_values_eq(self.resources, other.resources)),
+            b == (self.raw_archetypes.count() == other.raw_archetypes.count() && forall|k: archetype::IdentifierRef<R>| self@.dom().contains(k) ==> vx_has_equal_partner(#[trigger] self@[k], other@)),
     {
 
-        self.len == other.len
-            && vx_eq_archetypes(&self.archetypes, &other.archetypes)
-            && vx_eq_allocator(&self.entity_allocator, &other.entity_allocator)
-            && vx_eq_values(&self.resources, &other.resources)
-    
-    }
+proof { other.lemma_single_table(); }
 
-}
+        if self.raw_archetypes.len() != other.raw_archetypes.len() {
+            return false;
+        }
 
-impl<Registry, Resources> World<Registry, Resources> where Registry: crate::Registry {
-    pub fn serialize(&self, serializer: VxSerializer) -> (r: Result<VxSerOk, VxErr>)
-        ensures
-            r is Ok ==> r->Ok_0.declared() == 3 && r->Ok_0.elems() == seq![vx_ser_of(self.archetypes), vx_ser_of(self.entity_allocator), vx_ser_of(VxResSer(&self.resources))],
-    {
-
-        let mut tuple = serializer.serialize_tuple(3)?;
-        tuple.serialize_element(&self.archetypes)?;
-        tuple.serialize_element(&self.entity_allocator)?;
-        tuple.serialize_element(&VxResSer(&self.resources))?;
-        tuple.end()
-    
-    }
-
-}
-
-
-/// after `table.push(entity, allocator)` on the table selected for `bits`
-pub proof fn lemma_world_after_push<Registry: crate::Registry, Resources>(
-    w0: &World<Registry, Resources>, w1: &World<Registry, Resources>, id: entity::Identifier, bits: VxBits, row: archetype::VxRow)
-    requires true,
-    ensures true,
+        let vx_keys1 = self.raw_archetypes.vx_keys(); let vx_n1 = self.raw_archetypes.vx_len(vx_keys1); let mut vx_i1: usize = 0;
+        while vx_i1 < vx_n1 
+            invariant
+                vx_keys1@.len() == vx_n1 && vx_i1 <= vx_n1 && self.raw_archetypes.enumerates(vx_keys1@),
+                self.wf() && other.wf() && vx_single_table(other@),
+                self.raw_archetypes.count() == other.raw_archetypes.count(),
+                forall|j: int| 0 <= j < vx_i1 ==> vx_has_equal_partner(#[trigger] self@[vx_keys1@[j]], other@),
+            decreases vx_n1 - vx_i1
 {
+            let archetype = self.raw_archetypes.vx_nth(vx_i1, vx_keys1);
+proof {
+                let k = vx_keys1@[vx_i1 as int];
+                assert(vx_keys1@.contains(k));
+                assert(self@.dom().contains(k));
+                assert(self@[k].key() == k);
+            }
+
+            if !(match other.get_with_foreign(unsafe { archetype.identifier() }) { Some(other_archetype) => unsafe { vx_component_eq(archetype, other_archetype) }, None => false }) { return false; }
+            vx_i1 += 1;
+        }
+proof {
+            assert forall|k: archetype::IdentifierRef<R>| self@.dom().contains(k) implies vx_has_equal_partner(#[trigger] self@[k], other@) by {
+                assert(vx_keys1@.contains(k));
+                let j = choose|j: int| 0 <= j < vx_keys1@.len() && vx_keys1@[j] == k;
+                assert(vx_has_equal_partner(self@[vx_keys1@[j]], other@));
+            }
+        }
+        return true;
+    
+    }
+
 }
 
 } // verus!
